@@ -325,3 +325,1543 @@ Proof.
   - apply count_occ_not_In. rewrite In_zseq. lia.
   - apply count_occ_not_In. rewrite In_zseq. lia.
 Qed.
+
+Lemma flat_map_flat_map {A B C} (f : B -> list C) (g : A -> list B) l :
+  flat_map f (flat_map g l) = flat_map (fun x => flat_map f (g x)) l.
+Proof.
+  induction l as [|a l IH]; cbn [flat_map]; [reflexivity|]. rewrite flat_map_app, IH. reflexivity.
+Qed.
+Lemma flat_map_map {A B C} (f : B -> list C) (g : A -> B) l :
+  flat_map f (map g l) = flat_map (fun x => f (g x)) l.
+Proof. induction l as [|a l IH]; cbn [flat_map map]; [reflexivity|]. rewrite IH. reflexivity. Qed.
+
+Lemma core_block_depth_active nc bd c : 0 < nc -> nc <= bd -> 0 <= c < nc -> core_block_depth nc bd c <> 0.
+Proof.
+  intros. unfold core_block_depth.
+  assert (1 <= (bd + nc - 1 - c) / nc) by (apply Z.div_le_lower_bound; lia). lia.
+Qed.
+
+Lemma active_cores_all nc n bd : 0 < nc -> nc <= bd -> active_cores nc n bd = zseq 0 (Z.min nc n).
+Proof.
+  intros Hnc Hbd. unfold active_cores, cores.
+  apply sorted_ext; [apply filter_sorted, zseq_sorted | apply zseq_sorted |].
+  intro x. rewrite filter_In, In_zseq. split; [tauto|]. intro H. split; [exact H|].
+  apply negb_true_iff. apply Z.eqb_neq. apply core_block_depth_active; lia.
+Qed.
+
+Lemma active_cores_NoDup nc n bd : NoDup (active_cores nc n bd).
+Proof. apply sorted_NoDup. unfold active_cores, cores. apply filter_sorted, zseq_sorted. Qed.
+
+Lemma In_active_cores nc n bd c : In c (active_cores nc n bd) -> 0 <= c < nc /\ c < n.
+Proof. unfold active_cores, cores. rewrite filter_In, In_zseq. lia. Qed.
+
+Definition in_slice (p : Z * Z) (c : Z) : bool := (fst p <=? c) && (c <? fst p + snd p).
+
+Lemma slice_count nc n bd p c :
+  0 < nc -> nc <= bd -> snd p <= n ->
+  count_occ Z.eq_dec (flat_map (spec_channels nc) (slice_sections nc n bd p)) c =
+  if in_slice p c then 1%nat else 0%nat.
+Proof.
+  intros Hnc Hbd Hlen. destruct p as [d len]. unfold slice_sections. cbn [fst snd] in *.
+  rewrite flat_map_map. unfold spec_channels.
+  rewrite (count_key_partition (fun x => (x - d) mod nc) (zseq d len) (active_cores nc n bd) c (active_cores_NoDup nc n bd)).
+  rewrite count_occ_zseq. unfold in_slice. cbn [fst snd].
+  destruct ((d <=? c) && (c <? d + len)) eqn:E; [|destruct (in_dec _ _ _); reflexivity].
+  apply andb_true_iff in E. destruct E as [E1 E2]. apply Z.leb_le in E1. apply Z.ltb_lt in E2.
+  destruct (in_dec Z.eq_dec ((c - d) mod nc) (active_cores nc n bd)) as [I|I]; [reflexivity|].
+  exfalso. apply I. rewrite active_cores_all by assumption. apply In_zseq.
+  pose proof (Z.mod_pos_bound (c - d) nc Hnc). pose proof (Z.mod_le (c - d) nc ltac:(lia) Hnc). lia.
+Qed.
+
+Lemma slice_pairs_cons a b t : slice_pairs (a :: b :: t) = (a, b - a) :: slice_pairs (b :: t).
+Proof. reflexivity. Qed.
+
+Lemma strictly_increasing_cons a b t : strictly_increasing (a :: b :: t) <-> a < b /\ strictly_increasing (b :: t).
+Proof. reflexivity. Qed.
+
+Lemma strictly_increasing_last a t : strictly_increasing (a :: t) -> a <= last (a :: t) 0.
+Proof.
+  revert a. induction t as [|b t IH]; intros a H; [cbn; lia|].
+  apply strictly_increasing_cons in H. destruct H as [Hab H]. specialize (IH _ H).
+  change (last (a :: b :: t) 0) with (last (b :: t) 0). lia.
+Qed.
+
+(* facts about every slice of a strictly increasing list *)
+Lemma slice_pairs_bounds offs p :
+  strictly_increasing offs -> In p (slice_pairs offs) -> hd 0 offs <= fst p /\ 0 < snd p /\ fst p + snd p <= last offs 0.
+Proof.
+  induction offs as [|a t IH]; [intros _ []|].
+  destruct t as [|b t]; [intros _ []|].
+  intros H Hin. apply strictly_increasing_cons in H. destruct H as [Hab H].
+  rewrite slice_pairs_cons in Hin. change (last (a :: b :: t) 0) with (last (b :: t) 0).
+  pose proof (strictly_increasing_last _ _ H). cbn [hd].
+  destruct Hin as [<-|Hin]; cbn [fst snd]; [lia|].
+  specialize (IH H Hin). cbn [hd] in IH. lia.
+Qed.
+
+Lemma pairs_count offs c :
+  strictly_increasing offs -> offs <> [] ->
+  fold_right (fun p k => ((if in_slice p c then 1 else 0) + k)%nat) 0%nat (slice_pairs offs) =
+  if (hd 0 offs <=? c) && (c <? last offs 0) then 1%nat else 0%nat.
+Proof.
+  induction offs as [|a t IH]; [congruence|]. intros H _.
+  destruct t as [|b t].
+  - cbn [slice_pairs fold_right hd last]. destruct (Z.leb_spec a c); destruct (Z.ltb_spec c a); cbn [andb]; try reflexivity; lia.
+  - apply strictly_increasing_cons in H. destruct H as [Hab H].
+    rewrite slice_pairs_cons. cbn [fold_right]. rewrite (IH H ltac:(congruence)).
+    change (last (a :: b :: t) 0) with (last (b :: t) 0). cbn [hd]. unfold in_slice. cbn [fst snd].
+    pose proof (strictly_increasing_last _ _ H).
+    destruct (Z.leb_spec a c); destruct (Z.ltb_spec c (a + (b - a))); destruct (Z.leb_spec b c);
+      destruct (Z.ltb_spec c (last (b :: t) 0)); cbn [andb]; try reflexivity; lia.
+Qed.
+
+(* every channel of [hd offs, last offs) is in exactly one section, exactly once *)
+Lemma channels_exactly_once nc n bd offs c :
+  0 < nc -> nc <= bd -> strictly_increasing offs -> offs <> [] -> 0 <= hd 0 offs -> last offs 0 <= n ->
+  count_occ Z.eq_dec (flat_map (spec_channels nc) (sections nc n bd offs)) c =
+  if (hd 0 offs <=? c) && (c <? last offs 0) then 1%nat else 0%nat.
+Proof.
+  intros Hnc Hbd Hs Hne Hhd Hlast. unfold sections. rewrite flat_map_flat_map, count_occ_flat_map.
+  rewrite <- (pairs_count offs c Hs Hne).
+  assert (B : forall p, In p (slice_pairs offs) -> snd p <= n).
+  { intros p Hp. pose proof (slice_pairs_bounds _ _ Hs Hp). lia. }
+  induction (slice_pairs offs) as [|p ps IH]; cbn [fold_right]; [reflexivity|].
+  rewrite slice_count by (try assumption; apply B; left; reflexivity).
+  rewrite IH by (intros q Hq; apply B; right; exact Hq). reflexivity.
+Qed.
+
+(* ================================================================== the slice / core loop *)
+Lemma round_up_16_mod a : round_up a 16 mod 16 = 0.
+Proof. unfold round_up. apply Z_mod_mult. Qed.
+Lemma round_up_16_bounds a : a <= round_up a 16 < a + 16.
+Proof. unfold round_up. Z.div_mod_to_equations. lia. Qed.
+Lemma round_up_16_add k a : k mod 16 = 0 -> round_up (k + a) 16 = k + round_up a 16.
+Proof. unfold round_up. intro H. Z.div_mod_to_equations. lia. Qed.
+Lemma round_up_16_id a : a mod 16 = 0 -> round_up a 16 = a.
+Proof. unfold round_up. intro H. Z.div_mod_to_equations. lia. Qed.
+
+Lemma zlen_repeat {A} (x : A) n : zlen (repeat x n) = Z.of_nat n.
+Proof. unfold zlen. rewrite repeat_length. reflexivity. Qed.
+
+Lemma pad16_spec s : exists z, pad16 s = s ++ z /\ zlen (pad16 s) = round_up (zlen s) 16.
+Proof.
+  unfold pad16. pose proof (zlen_nonneg s).
+  destruct (Z.gtb_spec (zlen s mod 16) 0).
+  - eexists. split; [reflexivity|]. rewrite zlen_app, zlen_repeat. unfold round_up.
+    rewrite Z2Nat.id by (Z.div_mod_to_equations; lia). Z.div_mod_to_equations. lia.
+  - exists []. rewrite app_nil_r. split; [reflexivity|]. symmetry. apply round_up_16_id.
+    pose proof (Z.mod_pos_bound (zlen s) 16). lia.
+Qed.
+
+Lemma sub_app_l s x off n : 0 <= off -> 0 <= n -> off + n <= zlen s -> sub (s ++ x) off n = sub s off n.
+Proof.
+  intros Ho Hn Hle. unfold sub, zlen in *.
+  rewrite skipn_app. rewrite firstn_app.
+  replace (Z.to_nat n - length (skipn (Z.to_nat off) s))%nat with 0%nat by (rewrite skipn_length; lia).
+  cbn [firstn]. apply app_nil_r.
+Qed.
+
+Lemma sub_mid a b c : sub (a ++ b ++ c) (zlen a) (zlen b) = b.
+Proof.
+  unfold sub, zlen. rewrite !Nat2Z.id. rewrite skipn_app, skipn_all, Nat.sub_diag. cbn [skipn app].
+  rewrite firstn_app, firstn_all, Nat.sub_diag. cbn [firstn]. apply app_nil_r.
+Qed.
+
+Lemma sub_end a b : sub (a ++ b) (zlen a) (zlen b) = b.
+Proof. rewrite <- (app_nil_r b) at 1. apply sub_mid. Qed.
+
+Lemma total_ext_app a b : total_ext (a ++ b) = total_ext a + total_ext b.
+Proof. unfold total_ext. induction a as [|x a IH]; cbn [app fold_right]; [lia|]. rewrite IH. lia. Qed.
+
+Lemma total_ext_cons r a : total_ext (r :: a) = ext r + total_ext a.
+Proof. reflexivity. Qed.
+
+Fixpoint chain (start idx : Z) (rs : list wrange) : Prop :=
+  match rs with
+  | [] => True
+  | r :: t => r_offset r = start /\ r_index r = idx /\ chain (start + ext r) (idx + 1) t
+  end.
+
+Lemma chain_snoc start idx l x :
+  chain start idx (l ++ [x]) <-> chain start idx l /\ r_offset x = start + total_ext l /\ r_index x = idx + zlen l.
+Proof.
+  revert start idx. induction l as [|r l IH]; intros start idx; cbn [app chain].
+  - change (zlen (@nil wrange)) with 0. unfold total_ext. cbn [fold_right]. split.
+    + intros (A & B & _). repeat split; lia.
+    + intros (_ & A & B). repeat split; lia.
+  - rewrite IH, total_ext_cons, zlen_cons. split.
+    + intros (A & B & C & D & E). repeat split; try assumption; lia.
+    + intros ((A & B & C) & D & E). repeat split; try assumption; lia.
+Qed.
+
+Lemma od_set_fresh rs x :
+  (forall r, In r rs -> ~ (r_core r = r_core x /\ r_depth r = r_depth x)) -> od_set rs x = rs ++ [x].
+Proof.
+  induction rs as [|r rs IH]; intro H; cbn [od_set app]; [reflexivity|].
+  unfold key_eqb.
+  destruct (Z.eqb_spec (r_core r) (r_core x)); destruct (Z.eqb_spec (r_depth r) (r_depth x)); cbn [andb].
+  - exfalso. apply (H r); [left; reflexivity | split; assumption].
+  - f_equal. apply IH. intros. apply H. right. assumption.
+  - f_equal. apply IH. intros. apply H. right. assumption.
+  - f_equal. apply IH. intros. apply H. right. assumption.
+Qed.
+
+Lemma scale_stream_length cb cs ss : scale_stream cb cs = Some ss -> zlen ss = 10 * zlen cb.
+Proof.
+  revert cs ss. induction cb as [|b cb IH]; intros cs ss; cbn [scale_stream].
+  - intro E. inversion E. reflexivity.
+  - destruct cs as [|[m sh] cs]; [discriminate|].
+    destruct (encode_bias b m sh) eqn:Eb; [|discriminate].
+    destruct (scale_stream cb cs) eqn:Es; [|discriminate].
+    intro E. inversion E. rewrite zlen_app, zlen_cons, (IH _ _ Es), (encode_bias_length _ _ _ _ Eb). lia.
+Qed.
+
+Lemma Forall2_imp {A B} (P Q : A -> B -> Prop) l1 l2 :
+  (forall a b, P a b -> Q a b) -> Forall2 P l1 l2 -> Forall2 Q l1 l2.
+Proof. intros H F. induction F; constructor; auto. Qed.
+
+Section LayoutProofs.
+  Variable enc : Z -> Z -> Z -> Z -> list Z.
+  Variables (nc n bd : Z) (do_w : bool) (biases : list Z) (qs : list (Z * Z)).
+
+  Definition sec_scales (sec : Z * Z * Z) : option (list Z) :=
+    let '(core, d, len) := sec in
+    scale_stream (py_slice biases (d + core) (d + core + len) nc) (py_slice qs (d + core) (d + core + len) nc).
+
+  Definition sec_weights (sec : Z * Z * Z) : list Z :=
+    let '(core, d, len) := sec in enc core d len (core_block_depth nc bd core).
+
+  (* what holds of one range r of section sec in a stream *)
+  Definition range_ok (stream : list Z) (r : wrange) (sec : Z * Z * Z) : Prop :=
+    r_core r = fst (fst sec) /\ r_depth r = snd (fst sec) /\ 0 <= r_offset r /\ r_offset r mod 16 = 0 /\
+    r_offset r + ext r <= zlen stream /\ r_weight_bytes r mod 16 = 0 /\ 0 <= r_weight_bytes r /\
+    (exists ss, sec_scales sec = Some ss /\ r_scale_bytes r = zlen ss /\ sub stream (r_offset r) (zlen ss) = ss) /\
+    (if do_w then
+       r_weight_offset r = round_up (r_scale_bytes r) 16 /\
+       r_weight_bytes r = zlen (sec_weights sec) /\
+       sub stream (r_offset r + r_weight_offset r) (r_weight_bytes r) = sec_weights sec
+     else r_weight_offset r = 0 /\ r_weight_bytes r = 0).
+
+  Lemma range_ok_app stream x r sec : range_ok stream r sec -> range_ok (stream ++ x) r sec.
+  Proof.
+    unfold range_ok. intros (A & B & C & D & E & F & F' & (ss & G1 & G2 & G3) & H).
+    pose proof (round_up_16_bounds (r_scale_bytes r)) as RB. pose proof (zlen_nonneg ss) as Zs.
+    pose proof (zlen_nonneg x) as Zx. unfold ext in *.
+    repeat split; try assumption.
+    - rewrite zlen_app. lia.
+    - exists ss. repeat split; try assumption. rewrite sub_app_l; try assumption; lia.
+    - destruct do_w; [|exact H]. destruct H as (W1 & W2 & W3). repeat split; try assumption.
+      rewrite sub_app_l; try assumption; lia.
+  Qed.
+
+  Definition good (s : st) (secs : list (Z * Z * Z)) : Prop :=
+    Forall2 (range_ok (s_stream s)) (s_ranges s) secs /\ chain 0 0 (s_ranges s) /\
+    zlen (s_stream s) = total_ext (s_ranges s) /\ s_index s = zlen (s_ranges s) /\ zlen (s_stream s) mod 16 = 0.
+
+  Lemma core_step_spec d len core s secs s' :
+    good s secs ->
+    (forall r, In r (s_ranges s) -> ~ (r_core r = core /\ r_depth r = d)) ->
+    core_step enc nc bd do_w biases qs d len core s = Some s' ->
+    (core_block_depth nc bd core = 0 /\ s' = s) \/
+    (core_block_depth nc bd core <> 0 /\ good s' (secs ++ [(core, d, len)]) /\
+     exists r x, s_ranges s' = s_ranges s ++ [r] /\ r_core r = core /\ r_depth r = d /\ s_stream s' = s_stream s ++ x).
+  Proof.
+    intros (G1 & G2 & G3 & G4 & G5) Hfresh. unfold core_step.
+    destruct (Z.eqb_spec (core_block_depth nc bd core) 0) as [E0|E0].
+    { intro E. inversion E. left. split; [assumption|reflexivity]. }
+    destruct (scale_stream (py_slice biases (d + core) (d + core + len) nc) (py_slice qs (d + core) (d + core + len) nc))
+      as [ss|] eqn:Ess; [|discriminate].
+    destruct (pad16_spec (s_stream s ++ ss)) as (z & Hz & Hzl).
+    rewrite zlen_app in Hzl. rewrite round_up_16_add in Hzl by exact G5.
+    pose proof (zlen_nonneg ss) as Hss0. pose proof (round_up_16_bounds (zlen ss)) as RB.
+    pose proof (round_up_16_mod (zlen ss)) as RM.
+    destruct do_w eqn:Edw.
+    - (* weights *)
+      set (e := enc core d len (core_block_depth nc bd core)).
+      destruct (Z.eqb_spec (zlen (pad16 (s_stream s ++ ss) ++ e) mod 16) 0) as [Em|Em]; [|discriminate].
+      intro E. inversion E. clear E. subst s'. right. split; [assumption|].
+      set (r := mkR core d (zlen (s_stream s)) (zlen ss) (zlen (pad16 (s_stream s ++ ss)) - zlen (s_stream s)) (zlen e) (s_index s)).
+      assert (Hfr : od_set (s_ranges s) r = s_ranges s ++ [r]) by (apply od_set_fresh; exact Hfresh).
+      rewrite Hfr. rewrite zlen_app, Hzl in Em.
+      assert (Hemod : zlen e mod 16 = 0) by (Z.div_mod_to_equations; lia).
+      assert (Hext : ext r = round_up (zlen ss) 16 + zlen e) by reflexivity.
+      assert (Hzz : zlen z = round_up (zlen ss) 16 - zlen ss).
+      { assert (Hq := Hzl). rewrite Hz, !zlen_app in Hq. lia. }
+      assert (Hst : pad16 (s_stream s ++ ss) ++ e = s_stream s ++ (ss ++ z ++ e)).
+      { rewrite Hz, <- !app_assoc. reflexivity. }
+      rewrite Hst.
+      pose proof (zlen_nonneg (s_stream s)) as Zs. pose proof (zlen_nonneg e) as Ze.
+      split.
+      + unfold good. cbn [s_stream s_ranges s_index]. repeat split.
+        * apply Forall2_app.
+          -- eapply Forall2_imp; [|exact G1]. intros a b Hab. apply range_ok_app. exact Hab.
+          -- constructor; [|constructor]. unfold range_ok. rewrite Edw. cbn [fst snd r_core r_depth r_offset r_scale_bytes r_weight_offset r_weight_bytes r].
+             rewrite Hext, Hzl, !zlen_app.
+             repeat split; try lia.
+             ++ exists ss. repeat split; [exact Ess|]. apply sub_mid.
+             ++ unfold sec_weights. fold e.
+                replace (s_stream s ++ ss ++ z ++ e) with ((s_stream s ++ ss ++ z) ++ e) by (rewrite <- !app_assoc; reflexivity).
+                replace (zlen (s_stream s) + (zlen (s_stream s) + round_up (zlen ss) 16 - zlen (s_stream s)))
+                  with (zlen (s_stream s ++ ss ++ z)) by (rewrite !zlen_app; lia).
+                apply sub_end.
+        * apply chain_snoc. repeat split; [exact G2| |]; cbn [r_offset r_index r]; lia.
+        * rewrite !zlen_app, total_ext_app, total_ext_cons. unfold total_ext at 2. cbn [fold_right]. rewrite Hext. lia.
+        * rewrite zlen_app, zlen_cons. change (zlen (@nil wrange)) with 0. lia.
+        * rewrite !zlen_app. Z.div_mod_to_equations. lia.
+      + exists r, (ss ++ z ++ e). repeat split.
+    - (* scales only *)
+      intro E. inversion E. clear E. subst s'. right. split; [assumption|].
+      set (r := mkR core d (zlen (s_stream s)) (zlen ss) 0 0 (s_index s)).
+      assert (Hfr : od_set (s_ranges s) r = s_ranges s ++ [r]) by (apply od_set_fresh; exact Hfresh).
+      rewrite Hfr.
+      assert (Hext : ext r = round_up (zlen ss) 16 + 0) by reflexivity.
+      assert (Hzz : zlen z = round_up (zlen ss) 16 - zlen ss).
+      { assert (Hq := Hzl). rewrite Hz, !zlen_app in Hq. lia. }
+      assert (Hst : pad16 (s_stream s ++ ss) = s_stream s ++ (ss ++ z)).
+      { rewrite Hz, <- !app_assoc. reflexivity. }
+      rewrite Hst.
+      pose proof (zlen_nonneg (s_stream s)) as Zs.
+      split.
+      + unfold good. cbn [s_stream s_ranges s_index]. repeat split.
+        * apply Forall2_app.
+          -- eapply Forall2_imp; [|exact G1]. intros a b Hab. apply range_ok_app. exact Hab.
+          -- constructor; [|constructor]. unfold range_ok. rewrite Edw. cbn [fst snd r_core r_depth r_offset r_scale_bytes r_weight_offset r_weight_bytes r].
+             rewrite Hext, !zlen_app.
+             repeat split; try lia.
+             exists ss. repeat split; [exact Ess|]. apply sub_mid.
+        * apply chain_snoc. repeat split; [exact G2| |]; cbn [r_offset r_index r]; lia.
+        * rewrite !zlen_app, total_ext_app, total_ext_cons. unfold total_ext at 2. cbn [fold_right]. rewrite Hext. lia.
+        * rewrite zlen_app, zlen_cons. change (zlen (@nil wrange)) with 0. lia.
+        * rewrite !zlen_app. Z.div_mod_to_equations. lia.
+      + exists r, (ss ++ z). repeat split.
+  Qed.
+
+  Definition is_active (c : Z) : bool := negb (core_block_depth nc bd c =? 0).
+
+  Lemma cores_loop_spec d len cs : forall s secs s',
+    good s secs -> NoDup cs ->
+    (forall r, In r (s_ranges s) -> r_depth r = d -> ~ In (r_core r) cs) ->
+    cores_loop enc nc bd do_w biases qs d len cs s = Some s' ->
+    good s' (secs ++ map (fun c => (c, d, len)) (filter is_active cs)) /\
+    exists new x, s_ranges s' = s_ranges s ++ new /\ s_stream s' = s_stream s ++ x /\
+                  Forall2 (fun r c => r_core r = c /\ r_depth r = d) new (filter is_active cs).
+  Proof.
+    induction cs as [|c cs IH]; intros s secs s' G ND Hfr; cbn [cores_loop].
+    - intro E. inversion E. subst s'. cbn [filter map]. rewrite app_nil_r. split; [exact G|].
+      exists [], []. rewrite !app_nil_r. repeat split. constructor.
+    - destruct (core_step enc nc bd do_w biases qs d len c s) as [s1|] eqn:E1; [|discriminate].
+      intro E2. inversion ND as [|? ? Hnin ND']; subst.
+      assert (Hf1 : forall r, In r (s_ranges s) -> ~ (r_core r = c /\ r_depth r = d)).
+      { intros r Hr (A & B). apply (Hfr r Hr B). left. symmetry. exact A. }
+      destruct (core_step_spec d len c s secs s1 G Hf1 E1) as [(Z0 & ->) | (NZ & G1 & r & x & Hr & Hc & Hd & Hx)].
+      + assert (Ha : is_active c = false) by (unfold is_active; rewrite Z0; reflexivity).
+        cbn [filter]. rewrite Ha.
+        apply (IH s secs s' G ND'); [|exact E2].
+        intros r Hr Hd Hin. apply (Hfr r Hr Hd). right. exact Hin.
+      + assert (Ha : is_active c = true).
+        { unfold is_active. destruct (Z.eqb_spec (core_block_depth nc bd c) 0); [contradiction|reflexivity]. }
+        cbn [filter]. rewrite Ha. cbn [map].
+        assert (Hf2 : forall r0, In r0 (s_ranges s1) -> r_depth r0 = d -> ~ In (r_core r0) cs).
+        { intros r0 Hr0 Hd0 Hin. rewrite Hr in Hr0. apply in_app_or in Hr0. destruct Hr0 as [Hr0|[<-|[]]].
+          - apply (Hfr r0 Hr0 Hd0). right. exact Hin.
+          - rewrite Hc in Hin. contradiction. }
+        destruct (IH s1 _ s' G1 ND' Hf2 E2) as (G' & new & x' & Hn & Hs & F).
+        split.
+        * rewrite <- app_assoc in G'. exact G'.
+        * exists (r :: new), (x ++ x'). rewrite Hn, Hs, Hr, Hx, <- !app_assoc. repeat split.
+          constructor; [split; assumption | exact F].
+  Qed.
+
+  Lemma cores_NoDup : NoDup (cores nc n).
+  Proof. apply sorted_NoDup, zseq_sorted. Qed.
+
+  Lemma active_cores_eq : filter is_active (cores nc n) = active_cores nc n bd.
+  Proof. reflexivity. Qed.
+
+  (* ---- double buffer sizes *)
+  Lemma db_update_ge db idx sz j : db_get db j <= db_get (db_update db idx sz) j.
+  Proof.
+    unfold db_get, db_update. destruct (idx mod 2 =? 0); destruct (j mod 2 =? 0); cbn [fst snd]; lia.
+  Qed.
+  Lemma db_update_self db idx sz : sz <= db_get (db_update db idx sz) idx.
+  Proof.
+    unfold db_get, db_update. destruct (idx mod 2 =? 0) eqn:E; rewrite ?E; cbn [fst snd]; lia.
+  Qed.
+
+  Definition group_size (rs : list wrange) (d : Z) : Z := total_ext (filter (fun r => r_depth r =? d) rs).
+
+  Lemma group_size_app a b d : group_size (a ++ b) d = group_size a d + group_size b d.
+  Proof. unfold group_size. rewrite filter_app, total_ext_app. reflexivity. Qed.
+
+  Lemma group_size_none rs d : (forall r, In r rs -> r_depth r <> d) -> group_size rs d = 0.
+  Proof.
+    intro H. unfold group_size. induction rs as [|r rs IH]; [reflexivity|]. cbn [filter].
+    destruct (Z.eqb_spec (r_depth r) d) as [E|E]; [exfalso; apply (H r); [left; reflexivity | exact E]|].
+    apply IH. intros. apply H. right. assumption.
+  Qed.
+
+  Lemma group_size_all rs d : (forall r, In r rs -> r_depth r = d) -> group_size rs d = total_ext rs.
+  Proof.
+    intro H. unfold group_size. induction rs as [|r rs IH]; [reflexivity|]. cbn [filter].
+    destruct (Z.eqb_spec (r_depth r) d) as [E|E]; [|exfalso; apply E; apply H; left; reflexivity].
+    rewrite !total_ext_cons. f_equal. apply IH. intros. apply H. right. assumption.
+  Qed.
+
+  Lemma slices_loop_spec offs : forall idx s db secs s' db',
+    good s secs -> strictly_increasing offs ->
+    (forall r, In r (s_ranges s) -> r_depth r < hd 0 offs) ->
+    slices_loop enc nc n bd do_w biases qs offs idx s db = Some (s', db') ->
+    good s' (secs ++ flat_map (slice_sections nc n bd) (slice_pairs offs)) /\
+    (forall j, db_get db j <= db_get db' j) /\
+    (forall i p, nth_error (slice_pairs offs) i = Some p ->
+                 group_size (s_ranges s') (fst p) <= db_get db' (idx + Z.of_nat i)) /\
+    (forall p, In p (slice_pairs offs) -> 0 <= fst p < n) /\
+    exists new, s_ranges s' = s_ranges s ++ new /\ Forall (fun r => hd 0 offs <= r_depth r) new /\
+                (forall d, d < hd 0 offs -> group_size (s_ranges s') d = group_size (s_ranges s) d).
+  Proof.
+    induction offs as [|a t IH]; intros idx s db secs s' db' G SI Hlt.
+    - cbn [slices_loop]. intro E. inversion E. subst. cbn [slice_pairs flat_map]. rewrite app_nil_r.
+      split; [exact G|]. split; [intro; lia|]. split; [intros [|i] p Hp; discriminate|]. split; [intros p []|].
+      exists []. rewrite app_nil_r. repeat split. constructor.
+    - destruct t as [|b t].
+      + cbn [slices_loop]. intro E. inversion E. subst. cbn [slice_pairs flat_map]. rewrite app_nil_r.
+        split; [exact G|]. split; [intro; lia|]. split; [intros [|i] p Hp; discriminate|]. split; [intros p []|].
+        exists []. rewrite app_nil_r. repeat split. constructor.
+      + apply strictly_increasing_cons in SI. destruct SI as [Hab SI].
+        change (slices_loop enc nc n bd do_w biases qs (a :: b :: t) idx s db) with
+          (match slice_step enc nc n bd do_w biases qs idx a b s db with
+           | None => None
+           | Some (s1, db1) => slices_loop enc nc n bd do_w biases qs (b :: t) (idx + 1) s1 db1
+           end).
+        destruct (slice_step enc nc n bd do_w biases qs idx a b s db) as [[s1 db1]|] eqn:E1; [|discriminate].
+        intro E2. unfold slice_step in E1.
+        destruct ((0 <=? a) && (a <? n)) eqn:Ea; [|discriminate].
+        destruct (cores_loop enc nc bd do_w biases qs a (b - a) (cores nc n) s) as [s1'|] eqn:Ec; [|discriminate].
+        inversion E1. subst s1' db1. clear E1.
+        cbn [hd] in Hlt.
+        assert (Hfr : forall r, In r (s_ranges s) -> r_depth r = a -> ~ In (r_core r) (cores nc n)).
+        { intros r Hr Hd. specialize (Hlt r Hr). lia. }
+        destruct (cores_loop_spec a (b - a) (cores nc n) s secs s1 G cores_NoDup Hfr Ec) as (G1 & new1 & x1 & Hn1 & Hs1 & F1).
+        rewrite active_cores_eq in G1, F1.
+        assert (Hd1 : forall r, In r new1 -> r_depth r = a).
+        { clear - F1. induction F1 as [|r c l l' [_ Hd] F IHF]; intros r0 Hin; [destruct Hin|].
+          destruct Hin as [<-|H]; [exact Hd | apply IHF; exact H]. }
+        assert (Hlt1 : forall r, In r (s_ranges s1) -> r_depth r < hd 0 (b :: t)).
+        { intros r Hr. cbn [hd]. rewrite Hn1 in Hr. apply in_app_or in Hr. destruct Hr as [Hr|Hr].
+          - specialize (Hlt r Hr). lia.
+          - rewrite (Hd1 r Hr). exact Hab. }
+        destruct (IH (idx + 1) s1 _ _ s' db' G1 SI Hlt1 E2) as (G' & Hmono & Hdb & Hrange & new2 & Hn2 & F2 & Hold).
+        cbn [hd] in F2, Hold.
+        rewrite slice_pairs_cons. cbn [flat_map].
+        split; [rewrite <- app_assoc in G'; exact G'|].
+        split.
+        { intro j. specialize (Hmono j).
+          pose proof (db_update_ge db idx (zlen (s_stream s1) - zlen (s_stream s)) j). lia. }
+        split.
+        { intros [|i] p Hp.
+          - cbn [nth_error] in Hp. inversion Hp. subst p. cbn [fst]. rewrite Z.add_0_r.
+            rewrite (Hold a Hab). rewrite Hn1, group_size_app.
+            rewrite (group_size_none (s_ranges s)) by (intros r Hr; specialize (Hlt r Hr); lia).
+            rewrite (group_size_all new1 a Hd1).
+            destruct G as (_ & _ & G3 & _). destruct G1 as (_ & _ & G3' & _).
+            rewrite Hn1, total_ext_app in G3'.
+            pose proof (db_update_self db idx (zlen (s_stream s1) - zlen (s_stream s))).
+            specialize (Hmono idx). lia.
+          - cbn [nth_error] in Hp. specialize (Hdb i p Hp).
+            replace (idx + Z.of_nat (S i)) with (idx + 1 + Z.of_nat i) by lia. exact Hdb. }
+        split.
+        { intros p [<-|Hp]; [|apply Hrange; exact Hp]. cbn [fst].
+          apply andb_true_iff in Ea. destruct Ea as [A B]. apply Z.leb_le in A. apply Z.ltb_lt in B. lia. }
+        exists (new1 ++ new2). rewrite Hn2, Hn1, <- app_assoc. split; [reflexivity|]. split.
+        { apply Forall_app. split.
+          - apply Forall_forall. intros r Hr. rewrite (Hd1 r Hr). cbn [hd]. lia.
+          - eapply Forall_impl; [|exact F2]. cbn [hd]. intros r Hr. lia. }
+        intros d Hd. cbn [hd] in Hd.
+        rewrite app_assoc, <- Hn1, <- Hn2. rewrite (Hold d ltac:(lia)). rewrite Hn1, group_size_app.
+        rewrite (group_size_none new1) by (intros r Hr; rewrite (Hd1 r Hr); lia). lia.
+  Qed.
+
+  Theorem layout_spec offs t :
+    encode_layout enc nc n bd do_w biases qs offs = Some t -> strictly_increasing offs ->
+    Forall2 (range_ok (t_buffer t)) (t_ranges t) (sections nc n bd offs) /\ chain 0 0 (t_ranges t) /\
+    zlen (t_buffer t) = total_ext (t_ranges t) /\
+    (forall i p, nth_error (slice_pairs offs) i = Some p ->
+                 group_size (t_ranges t) (fst p) <= db_get (t_db t) (Z.of_nat i)) /\
+    (forall p, In p (slice_pairs offs) -> 0 <= fst p < n) /\ 1 < zlen offs.
+  Proof.
+    unfold encode_layout. destruct (Z.leb_spec (zlen offs) 1) as [|Hlen]; [discriminate|].
+    destruct (slices_loop enc nc n bd do_w biases qs offs 0 (mkSt [] [] 0) (0, 0)) as [[s db]|] eqn:E; [|discriminate].
+    intros Et SI. inversion Et. subst t. clear Et. cbn [t_buffer t_ranges t_db].
+    assert (G0 : good (mkSt [] [] 0) []).
+    { unfold good. cbn [s_stream s_ranges s_index]. repeat split; try reflexivity. constructor. }
+    destruct (slices_loop_spec offs 0 _ _ [] s db G0 SI ltac:(intros r []) E) as ((G1 & G2 & G3 & _) & _ & Hdb & Hr & _).
+    cbn [app] in G1. split; [exact G1|]. split; [exact G2|]. split; [exact G3|]. split.
+    - intros i p Hp. specialize (Hdb i p Hp). rewrite Z.add_0_l in Hdb. exact Hdb.
+    - split; [exact Hr | lia].
+  Qed.
+
+  (* ---- consequences of a chain *)
+  Lemma chain_lower start idx rs : chain start idx rs -> Forall (fun r => 0 <= ext r) rs ->
+    forall j rj, nth_error rs j = Some rj -> start <= r_offset rj.
+  Proof.
+    revert start idx. induction rs as [|r rs IH]; intros start idx C F j rj Hj; [destruct j; discriminate|].
+    destruct C as (A & B & C). inversion F as [|? ? F0 F']; subst.
+    destruct j as [|j]; cbn [nth_error] in Hj.
+    - inversion Hj. subst. lia.
+    - specialize (IH _ _ C F' j rj Hj). lia.
+  Qed.
+
+  Lemma chain_ordered start idx rs : chain start idx rs -> Forall (fun r => 0 <= ext r) rs ->
+    forall i j ri rj, (i < j)%nat -> nth_error rs i = Some ri -> nth_error rs j = Some rj ->
+                      r_offset ri + ext ri <= r_offset rj.
+  Proof.
+    revert start idx. induction rs as [|r rs IH]; intros start idx C F i j ri rj Hij Hi Hj; [destruct i; discriminate|].
+    destruct C as (A & B & C). inversion F as [|? ? F0 F']; subst.
+    destruct j as [|j]; [lia|]. cbn [nth_error] in Hj.
+    destruct i as [|i]; cbn [nth_error] in Hi.
+    - inversion Hi. subst ri. apply (chain_lower _ _ _ C F' j rj Hj).
+    - apply (IH _ _ C F' i j ri rj); [lia | assumption | assumption].
+  Qed.
+
+  Lemma chain_index start idx rs : chain start idx rs ->
+    forall j rj, nth_error rs j = Some rj -> r_index rj = idx + Z.of_nat j /\ r_offset rj = start + total_ext (firstn j rs).
+  Proof.
+    revert start idx. induction rs as [|r rs IH]; intros start idx C j rj Hj; [destruct j; discriminate|].
+    destruct C as (A & B & C). destruct j as [|j]; cbn [nth_error firstn] in *.
+    - inversion Hj. subst. unfold total_ext. cbn [fold_right]. lia.
+    - destruct (IH _ _ C j rj Hj) as [I O]. rewrite total_ext_cons. lia.
+  Qed.
+
+  Definition key_of_range (r : wrange) : Z * Z := (r_core r, r_depth r).
+  Definition key_of_sec (sec : Z * Z * Z) : Z * Z := fst sec.
+
+  Lemma range_ok_keys stream rs secs :
+    Forall2 (range_ok stream) rs secs -> map key_of_range rs = map key_of_sec secs.
+  Proof.
+    induction 1 as [|r sec rs secs H F IH]; [reflexivity|]. cbn [map]. rewrite IH. f_equal.
+    destruct H as (A & B & _). unfold key_of_range, key_of_sec. destruct sec as [[c d] l]. cbn [fst snd] in *. congruence.
+  Qed.
+
+  Definition range_wf (buflen : Z) (r : wrange) : Prop :=
+    0 <= r_offset r /\ r_offset r mod 16 = 0 /\ ext r mod 16 = 0 /\ 0 <= r_scale_bytes r /\ 0 <= r_weight_bytes r /\
+    r_weight_bytes r mod 16 = 0 /\ r_offset r + ext r <= buflen /\
+    (if do_w then r_weight_offset r = round_up (r_scale_bytes r) 16 /\ (r_offset r + r_weight_offset r) mod 16 = 0
+     else r_weight_offset r = 0 /\ r_weight_bytes r = 0).
+
+  Lemma range_ok_wf stream r sec : range_ok stream r sec -> range_wf (zlen stream) r.
+  Proof.
+    intros (A & B & C & D & E & F & F' & (ss & G1 & G2 & G3) & H). unfold range_wf, ext in *.
+    pose proof (round_up_16_mod (r_scale_bytes r)). pose proof (zlen_nonneg ss).
+    repeat split; try assumption; try lia.
+    - Z.div_mod_to_equations. lia.
+    - destruct do_w; [|exact H]. destruct H as (W1 & W2 & W3). split; [exact W1|]. rewrite W1. Z.div_mod_to_equations. lia.
+  Qed.
+
+  (* every (core, slice) range starts at a multiple of 16; ranges are consecutive, disjoint, in stream order and
+     cover the buffer *)
+  Theorem ranges_aligned_disjoint_ordered_lemma offs t :
+    encode_layout enc nc n bd do_w biases qs offs = Some t -> strictly_increasing offs ->
+    map key_of_range (t_ranges t) = map key_of_sec (sections nc n bd offs) /\
+    chain 0 0 (t_ranges t) /\
+    total_ext (t_ranges t) = zlen (t_buffer t) /\
+    Forall (range_wf (zlen (t_buffer t))) (t_ranges t) /\
+    (forall i j ri rj, (i < j)%nat -> nth_error (t_ranges t) i = Some ri -> nth_error (t_ranges t) j = Some rj ->
+                       r_offset ri + ext ri <= r_offset rj) /\
+    (forall j rj, nth_error (t_ranges t) j = Some rj -> r_index rj = Z.of_nat j).
+  Proof.
+    intros E SI. destruct (layout_spec offs t E SI) as (F & C & L & _).
+    assert (W : Forall (range_wf (zlen (t_buffer t))) (t_ranges t)).
+    { clear - F. induction F; constructor; [eapply range_ok_wf; eassumption | assumption]. }
+    assert (P : Forall (fun r => 0 <= ext r) (t_ranges t)).
+    { eapply Forall_impl; [|exact W]. intros r (_ & _ & _ & A & B & _). unfold ext.
+      pose proof (round_up_16_bounds (r_scale_bytes r)). lia. }
+    split; [eapply range_ok_keys; exact F|]. split; [exact C|]. split; [symmetry; exact L|]. split; [exact W|].
+    split.
+    - intros. eapply chain_ordered; eassumption.
+    - intros j rj Hj. destruct (chain_index _ _ _ C j rj Hj) as [I _]. lia.
+  Qed.
+
+  (* the recorded double-buffer size of parity i mod 2 bounds slice i *)
+  Theorem double_buffer_bounds_lemma offs t i d len :
+    encode_layout enc nc n bd do_w biases qs offs = Some t -> strictly_increasing offs ->
+    nth_error (slice_pairs offs) i = Some (d, len) ->
+    group_size (t_ranges t) d <= db_get (t_db t) (Z.of_nat i).
+  Proof.
+    intros E SI Hp. destruct (layout_spec offs t E SI) as (_ & _ & _ & H & _). apply (H i (d, len) Hp).
+  Qed.
+
+  Lemma Forall2_imp_In_r {A B} (P Q : A -> B -> Prop) l1 l2 :
+    Forall2 P l1 l2 -> (forall a b, In b l2 -> P a b -> Q a b) -> Forall2 Q l1 l2.
+  Proof.
+    induction 1 as [|a b l1 l2 H F IH]; intro HQ; constructor.
+    - apply HQ; [left; reflexivity | exact H].
+    - apply IH. intros. apply HQ; [right; assumption | assumption].
+  Qed.
+
+  Lemma In_sections sec offs :
+    In sec (sections nc n bd offs) <->
+    exists p, In p (slice_pairs offs) /\ In (fst (fst sec)) (active_cores nc n bd) /\ snd (fst sec) = fst p /\ snd sec = snd p.
+  Proof.
+    unfold sections, slice_sections. rewrite in_flat_map. split.
+    - intros (p & Hp & Hs). apply in_map_iff in Hs. destruct Hs as (c & <- & Hc). exists p. cbn [fst snd]. tauto.
+    - intros (p & Hp & Hc & Hd & Hl). exists p. split; [exact Hp|]. apply in_map_iff.
+      exists (fst (fst sec)). split; [|exact Hc]. destruct sec as [[c d] l]. cbn [fst snd] in *. congruence.
+  Qed.
+
+  Lemma zlen_flat_map_nth {A} (l : list A) chans :
+    (forall c, In c chans -> 0 <= c < zlen l) -> zlen (flat_map (nth_list l) chans) = zlen chans.
+  Proof.
+    induction chans as [|c chans IH]; intro H; [reflexivity|]. cbn [flat_map]. rewrite zlen_app, zlen_cons, IH.
+    - unfold nth_list. specialize (H c (or_introl eq_refl)).
+      destruct (nth_error l (Z.to_nat c)) eqn:E; [reflexivity|].
+      apply nth_error_None in E. unfold zlen in H. lia.
+    - intros. apply H. right. assumption.
+  Qed.
+
+  Definition wf_slices (offs : list Z) : Prop :=
+    strictly_increasing offs /\ hd 0 offs = 0 /\ last offs 0 = n /\
+    (forall p, In p (slice_pairs offs) -> snd p mod nc = 0 \/ fst p + snd p = n).
+
+  (* the scale section of (core, slice [d, d+len)) is exactly the 10-byte records of channels d+core, d+core+ncores, ..
+     below d+len, and every channel of the operator is in exactly one section *)
+  Theorem scales_one_record_per_channel_lemma offs t :
+    encode_layout enc nc n bd do_w biases qs offs = Some t ->
+    wf_slices offs -> 0 < nc -> nc <= bd -> zlen biases = n -> zlen qs = n ->
+    Forall2 (fun r sec => exists bytes, records biases qs (spec_channels nc sec) = Some bytes /\
+                                        r_scale_bytes r = 10 * zlen (spec_channels nc sec) /\
+                                        sub (t_buffer t) (r_offset r) (r_scale_bytes r) = bytes)
+            (t_ranges t) (sections nc n bd offs) /\
+    (forall c, count_occ Z.eq_dec (flat_map (spec_channels nc) (sections nc n bd offs)) c =
+               if (0 <=? c) && (c <? n) then 1%nat else 0%nat).
+  Proof.
+    intros E (SI & Hhd & Hlast & Hmult) Hnc Hbd Hb Hq.
+    destruct (layout_spec offs t E SI) as (F & _ & _ & _ & _ & Hlen).
+    split.
+    - eapply Forall2_imp_In_r; [exact F|].
+      intros r sec Hsec (_ & _ & _ & _ & _ & _ & _ & (ss & S1 & S2 & S3) & _).
+      apply In_sections in Hsec. destruct Hsec as (p & Hp & Hc & Hd & Hl).
+      destruct sec as [[core d] len]. cbn [fst snd] in Hc, Hd, Hl.
+      apply In_active_cores in Hc.
+      pose proof (slice_pairs_bounds _ _ SI Hp) as (B1 & B2 & B3).
+      assert (Hcode : code_channels nc n (core, d, len) = spec_channels nc (core, d, len)).
+      { apply code_channels_spec; try lia. subst d len. apply Hmult. exact Hp. }
+      unfold sec_scales, py_slice in S1. rewrite Hb, Hq in S1.
+      change (slice_idx (d + core) (d + core + len) nc n) with (code_channels nc n (core, d, len)) in S1.
+      rewrite Hcode in S1.
+      exists ss. split; [exact S1|]. split; [|rewrite S2; exact S3].
+      rewrite S2, (scale_stream_length _ _ _ S1). f_equal. apply zlen_flat_map_nth.
+      intros c Hin. apply In_spec_channels in Hin. lia.
+    - intro c. rewrite channels_exactly_once; try assumption; try lia.
+      + rewrite Hhd, Hlast. reflexivity.
+      + intro Hnil. subst offs. cbn in Hlen. lia.
+  Qed.
+
+  (* ---- the ranges of one slice inside the final list *)
+  Lemma pairs_fst_sorted offs : strictly_increasing offs -> StronglySorted Z.lt (map fst (slice_pairs offs)).
+  Proof.
+    induction offs as [|a t IH]; [constructor|]. destruct t as [|b t]; [constructor|].
+    intro SI. assert (SI' := SI). apply strictly_increasing_cons in SI. destruct SI as [Hab SI].
+    rewrite slice_pairs_cons. cbn [map fst]. constructor; [apply IH; exact SI|].
+    apply Forall_forall. intros x Hx. apply in_map_iff in Hx. destruct Hx as (p & <- & Hp).
+    pose proof (slice_pairs_bounds _ _ SI Hp) as (B & _). cbn [hd] in B. lia.
+  Qed.
+
+  Lemma pairs_split offs i p :
+    strictly_increasing offs -> nth_error (slice_pairs offs) i = Some p ->
+    exists P1 P2, slice_pairs offs = P1 ++ p :: P2 /\ length P1 = i /\ forall q, In q (P1 ++ P2) -> fst q <> fst p.
+  Proof.
+    intros SI Hp. destruct (nth_error_split _ _ Hp) as (P1 & P2 & HP & HL).
+    exists P1, P2. split; [exact HP|]. split; [exact HL|].
+    pose proof (sorted_NoDup _ (pairs_fst_sorted offs SI)) as ND. rewrite HP, map_app in ND. cbn [map] in ND.
+    apply NoDup_remove_2 in ND. intros q Hq E. apply ND. rewrite <- map_app. apply in_map_iff. exists q. split; [exact E | exact Hq].
+  Qed.
+
+  Lemma Forall2_In_l {A B} (P : A -> B -> Prop) l1 l2 a :
+    Forall2 P l1 l2 -> In a l1 -> exists b, In b l2 /\ P a b.
+  Proof.
+    induction 1 as [|x y l1 l2 H F IH]; intros []; [subst; exists y; split; [left; reflexivity | exact H]|].
+    destruct (IH H0) as (b & Hb & Pb). exists b. split; [right; exact Hb | exact Pb].
+  Qed.
+
+  Lemma Forall2_sections_depth stream rs ps :
+    Forall2 (range_ok stream) rs (flat_map (slice_sections nc n bd) ps) ->
+    forall r, In r rs -> exists q, In q ps /\ r_depth r = fst q.
+  Proof.
+    intros F r Hr. destruct (Forall2_In_l _ _ _ _ F Hr) as (sec & Hs & Hok).
+    apply in_flat_map in Hs. destruct Hs as (q & Hq & Hs). unfold slice_sections in Hs. apply in_map_iff in Hs.
+    destruct Hs as (c & <- & _). exists q. split; [exact Hq|]. destruct Hok as (_ & B & _). exact B.
+  Qed.
+
+  Lemma slice_ranges offs t i d len :
+    encode_layout enc nc n bd do_w biases qs offs = Some t -> strictly_increasing offs ->
+    nth_error (slice_pairs offs) i = Some (d, len) ->
+    exists R1 Rd R2, t_ranges t = R1 ++ Rd ++ R2 /\
+      Forall2 (range_ok (t_buffer t)) Rd (slice_sections nc n bd (d, len)) /\
+      (forall r, In r (R1 ++ R2) -> r_depth r <> d) /\
+      Forall (range_wf (zlen (t_buffer t))) (t_ranges t) /\ chain 0 0 (t_ranges t) /\
+      zlen (t_buffer t) = total_ext (t_ranges t) /\
+      group_size (t_ranges t) d = total_ext Rd /\ total_ext Rd <= db_get (t_db t) (Z.of_nat i).
+  Proof.
+    intros E SI Hp. destruct (layout_spec offs t E SI) as (F & C & L & Hdb & _).
+    destruct (pairs_split offs i (d, len) SI Hp) as (P1 & P2 & HP & _ & Hne).
+    unfold sections in F. rewrite HP, flat_map_app in F. cbn [flat_map] in F.
+    apply Forall2_app_inv_r in F. destruct F as (R1 & R' & F1 & F' & HR).
+    apply Forall2_app_inv_r in F'. destruct F' as (Rd & R2 & Fd & F2 & HR').
+    subst R'. exists R1, Rd, R2. split; [exact HR|]. split; [exact Fd|].
+    assert (Hother : forall r, In r (R1 ++ R2) -> r_depth r <> d).
+    { intros r Hr. apply in_app_or in Hr. destruct Hr as [Hr|Hr].
+      - destruct (Forall2_sections_depth _ _ _ F1 r Hr) as (q & Hq & ->).
+        apply (Hne q). apply in_or_app. left. exact Hq.
+      - destruct (Forall2_sections_depth _ _ _ F2 r Hr) as (q & Hq & ->).
+        apply (Hne q). apply in_or_app. right. exact Hq. }
+    split; [exact Hother|].
+    assert (W : Forall (range_wf (zlen (t_buffer t))) (t_ranges t)).
+    { destruct (layout_spec offs t E SI) as (F & _). clear - F. induction F; constructor; [eapply range_ok_wf; eassumption | assumption]. }
+    split; [exact W|]. split; [exact C|]. split; [exact L|].
+    assert (Hd : forall r, In r Rd -> r_depth r = d).
+    { intros r Hr. destruct (Forall2_In_l _ _ _ _ Fd Hr) as (sec & Hs & (_ & B & _)).
+      unfold slice_sections in Hs. apply in_map_iff in Hs. destruct Hs as (c & <- & _). exact B. }
+    assert (Hg : group_size (t_ranges t) d = total_ext Rd).
+    { rewrite HR, !group_size_app.
+      rewrite (group_size_none R1) by (intros r Hr; apply Hother; apply in_or_app; left; exact Hr).
+      rewrite (group_size_none R2) by (intros r Hr; apply Hother; apply in_or_app; right; exact Hr).
+      rewrite (group_size_all Rd d Hd). lia. }
+    split; [exact Hg|]. rewrite <- Hg. apply (Hdb i (d, len) Hp).
+  Qed.
+End LayoutProofs.
+
+(* ================================================================== create_weights / create_dma_op *)
+Lemma od_get_app_skip R1 X c d :
+  (forall r, In r R1 -> ~ (r_core r = c /\ r_depth r = d)) -> od_get (R1 ++ X) c d = od_get X c d.
+Proof.
+  induction R1 as [|r R1 IH]; intro H; [reflexivity|]. cbn [app od_get]. unfold key_eqb.
+  destruct (Z.eqb_spec (r_core r) c); destruct (Z.eqb_spec (r_depth r) d); cbn [andb];
+    try (apply IH; intros; apply H; right; assumption).
+  exfalso. apply (H r); [left; reflexivity | split; assumption].
+Qed.
+
+Lemma od_get_none X c d : (forall r, In r X -> ~ (r_core r = c /\ r_depth r = d)) -> od_get X c d = None.
+Proof.
+  intro H. rewrite <- (app_nil_r X). rewrite od_get_app_skip by exact H. reflexivity.
+Qed.
+
+Lemma od_get_hit r X c d : r_core r = c -> r_depth r = d -> od_get (r :: X) c d = Some r.
+Proof. intros <- <-. cbn [od_get]. unfold key_eqb. rewrite !Z.eqb_refl. reflexivity. Qed.
+
+Definition rup_total (r : wrange) : Z := round_up (r_scale_bytes r + r_weight_bytes r) 16.
+
+Fixpoint cw_expect (d : Z) (Rd : list wrange) (buffered : bool) (w_addr : Z) (sc : option (list wrange * Z)) (co : Z)
+  : option (list (Z * Z) * list (Z * Z)) :=
+  match Rd with
+  | [] => Some ([], [])
+  | r :: t =>
+      let address := if buffered then w_addr + co else w_addr + r_offset r in
+      let co' := if buffered then co + rup_total r else co in
+      let w := (address + r_weight_offset r, round_up (r_weight_bytes r) 16) in
+      let b := match sc with
+               | Some (srs, s_addr) =>
+                   match od_get srs (r_core r) d with
+                   | Some sr => Some (s_addr + r_offset sr, round_up (r_scale_bytes sr) 16)
+                   | None => None
+                   end
+               | None => Some (address, round_up (r_scale_bytes r) 16)
+               end in
+      match b with
+      | None => None
+      | Some b' => match cw_expect d t buffered w_addr sc co' with
+                   | Some (ws, bs) => Some (w :: ws, b' :: bs)
+                   | None => None
+                   end
+      end
+  end.
+
+Fixpoint dma_expect (Rd : list wrange) (in_addr sz : Z) (src : option Z) : Z * option Z :=
+  match Rd with
+  | [] => (sz, src)
+  | r :: t => dma_expect t in_addr (sz + rup_total r) (if r_core r =? 0 then Some (in_addr + r_offset r) else src)
+  end.
+
+Lemma Forall2_core_in (sel : Z -> bool) d Rd cs :
+  Forall2 (fun r c => r_core r = c /\ r_depth r = d) Rd (filter sel cs) ->
+  forall r, In r Rd -> In (r_core r) cs /\ r_depth r = d.
+Proof.
+  intros F r Hr. destruct (Forall2_In_l _ _ _ _ F Hr) as (c & Hc & (A & B)).
+  apply filter_In in Hc. subst c. tauto.
+Qed.
+
+Lemma Forall2_cons_r_inv {A B} (P : A -> B -> Prop) l b l' :
+  Forall2 P l (b :: l') -> exists a l0, l = a :: l0 /\ P a b /\ Forall2 P l0 l'.
+Proof. intro F. inversion F; subst. eauto. Qed.
+
+Section Lookup.
+  Variables (d : Z) (sel : Z -> bool).
+
+  Lemma lookup_step pre r Rd post c cs :
+    NoDup (c :: cs) -> r_core r = c -> r_depth r = d ->
+    (forall r0, In r0 (pre ++ post) -> r_depth r0 = d -> ~ In (r_core r0) (c :: cs)) ->
+    od_get (pre ++ (r :: Rd) ++ post) c d = Some r /\
+    (forall r0, In r0 ((pre ++ [r]) ++ post) -> r_depth r0 = d -> ~ In (r_core r0) cs).
+  Proof.
+    intros ND Hc Hd Hfr. inversion ND as [|? ? Hnin ND']; subst. split.
+    - rewrite od_get_app_skip; [apply od_get_hit; auto|].
+      intros r0 Hr0 (A & B). apply (Hfr r0); [apply in_or_app; left; exact Hr0 | exact B | left; symmetry; exact A].
+    - intros r0 Hr0 Hd0 Hin. rewrite <- app_assoc in Hr0. apply in_app_or in Hr0. destruct Hr0 as [Hr0|[<-|Hr0]].
+      + apply (Hfr r0); [apply in_or_app; left; exact Hr0 | exact Hd0 | right; exact Hin].
+      + contradiction.
+      + apply (Hfr r0); [apply in_or_app; right; exact Hr0 | exact Hd0 | right; exact Hin].
+  Qed.
+
+  Lemma lookup_miss pre Rd post c cs :
+    NoDup (c :: cs) -> sel c = false ->
+    Forall2 (fun r c => r_core r = c /\ r_depth r = d) Rd (filter sel cs) ->
+    (forall r0, In r0 (pre ++ post) -> r_depth r0 = d -> ~ In (r_core r0) (c :: cs)) ->
+    od_get (pre ++ Rd ++ post) c d = None.
+  Proof.
+    intros ND Hs F Hfr. inversion ND as [|? ? Hnin ND']; subst. apply od_get_none.
+    intros r0 Hr0 (A & B). apply in_app_or in Hr0. destruct Hr0 as [Hr0|Hr0]; [|apply in_app_or in Hr0; destruct Hr0 as [Hr0|Hr0]].
+    - apply (Hfr r0); [apply in_or_app; left; exact Hr0 | exact B | left; symmetry; exact A].
+    - destruct (Forall2_core_in _ _ _ _ F r0 Hr0) as [Hin _]. rewrite A in Hin. contradiction.
+    - apply (Hfr r0); [apply in_or_app; right; exact Hr0 | exact B | left; symmetry; exact A].
+  Qed.
+
+  Lemma cw_loop_expect buffered w_addr sc cs : forall pre Rd post co,
+    Forall2 (fun r c => r_core r = c /\ r_depth r = d) Rd (filter sel cs) -> NoDup cs ->
+    (forall r0, In r0 (pre ++ post) -> r_depth r0 = d -> ~ In (r_core r0) cs) ->
+    cw_loop (pre ++ Rd ++ post) d cs buffered w_addr sc co = cw_expect d Rd buffered w_addr sc co.
+  Proof.
+    induction cs as [|c cs IH]; intros pre Rd post co F ND Hfr.
+    - cbn [filter] in F. inversion F. subst. reflexivity.
+    - cbn [filter] in F. cbn [cw_loop]. destruct (sel c) eqn:Es.
+      + apply Forall2_cons_r_inv in F. destruct F as (r & Rd' & -> & [Hc Hd] & F').
+        destruct (lookup_step pre r Rd' post c cs ND Hc Hd Hfr) as [Hget Hfr'].
+        rewrite Hget. cbn [cw_expect]. inversion ND; subst.
+        replace (pre ++ (r :: Rd') ++ post) with ((pre ++ [r]) ++ Rd' ++ post) by (rewrite <- !app_assoc; reflexivity).
+        unfold rup_total. rewrite IH by assumption. reflexivity.
+      + rewrite (lookup_miss pre Rd post c cs ND Es F Hfr). inversion ND; subst. apply IH; try assumption.
+        intros r0 Hr0 Hd0 Hin. apply (Hfr r0 Hr0 Hd0). right. exact Hin.
+  Qed.
+
+  Lemma dma_loop_expect in_addr cs : forall pre Rd post sz src,
+    Forall2 (fun r c => r_core r = c /\ r_depth r = d) Rd (filter sel cs) -> NoDup cs ->
+    (forall r0, In r0 (pre ++ post) -> r_depth r0 = d -> ~ In (r_core r0) cs) ->
+    dma_loop (pre ++ Rd ++ post) d cs in_addr sz src = dma_expect Rd in_addr sz src.
+  Proof.
+    induction cs as [|c cs IH]; intros pre Rd post sz src F ND Hfr.
+    - cbn [filter] in F. inversion F. subst. reflexivity.
+    - cbn [filter] in F. cbn [dma_loop]. destruct (sel c) eqn:Es.
+      + apply Forall2_cons_r_inv in F. destruct F as (r & Rd' & -> & [Hc Hd] & F').
+        destruct (lookup_step pre r Rd' post c cs ND Hc Hd Hfr) as [Hget Hfr'].
+        rewrite Hget. cbn [dma_expect]. inversion ND; subst.
+        replace (pre ++ (r :: Rd') ++ post) with ((pre ++ [r]) ++ Rd' ++ post) by (rewrite <- !app_assoc; reflexivity).
+        unfold rup_total. rewrite IH by assumption. reflexivity.
+      + rewrite (lookup_miss pre Rd post c cs ND Es F Hfr). inversion ND; subst. apply IH; try assumption.
+        intros r0 Hr0 Hd0 Hin. apply (Hfr r0 Hr0 Hd0). right. exact Hin.
+  Qed.
+End Lookup.
+
+Lemma chain_app start idx a b :
+  chain start idx (a ++ b) <-> chain start idx a /\ chain (start + total_ext a) (idx + zlen a) b.
+Proof.
+  revert start idx. induction a as [|r a IH]; intros start idx; cbn [app chain].
+  - change (zlen (@nil wrange)) with 0. unfold total_ext. cbn [fold_right]. rewrite !Z.add_0_r. tauto.
+  - rewrite IH, total_ext_cons, zlen_cons.
+    replace (start + ext r + total_ext a) with (start + (ext r + total_ext a)) by lia.
+    replace (idx + 1 + zlen a) with (idx + (1 + zlen a)) by lia. tauto.
+Qed.
+
+Lemma chain_upper start idx rs : chain start idx rs -> Forall (fun r => 0 <= ext r) rs ->
+  forall r, In r rs -> start <= r_offset r /\ r_offset r + ext r <= start + total_ext rs.
+Proof.
+  revert start idx. induction rs as [|x rs IH]; intros start idx C F r Hr; [destruct Hr|].
+  destruct C as (A & B & C). inversion F as [|? ? F0 F']; subst. rewrite total_ext_cons.
+  assert (0 <= total_ext rs).
+  { clear - F'. induction F'; [unfold total_ext; cbn; lia | rewrite total_ext_cons; lia]. }
+  destruct Hr as [<-|Hr]; [lia|]. specialize (IH _ _ C F' r Hr). lia.
+Qed.
+
+Lemma total_ext_nonneg rs : Forall (fun r => 0 <= ext r) rs -> 0 <= total_ext rs.
+Proof. induction 1; [unfold total_ext; cbn; lia | rewrite total_ext_cons; lia]. Qed.
+
+Definition member (l : list Z) (c : Z) : bool := existsb (Z.eqb c) l.
+
+Lemma member_In l c : member l c = true <-> In c l.
+Proof.
+  unfold member. rewrite existsb_exists. split.
+  - intros (x & Hx & E). apply Z.eqb_eq in E. subst. exact Hx.
+  - intro H. exists c. split; [exact H | apply Z.eqb_refl].
+Qed.
+
+Lemma filter_member_active nc n bd : filter (member (active_cores nc n bd)) (zseq 0 nc) = active_cores nc n bd.
+Proof.
+  apply sorted_ext.
+  - apply filter_sorted, zseq_sorted.
+  - unfold active_cores, cores. apply filter_sorted, zseq_sorted.
+  - intro x. rewrite filter_In, member_In, In_zseq. split; [tauto|]. intro H. split; [|exact H].
+    apply In_active_cores in H. lia.
+Qed.
+
+Lemma zseq_head lo m : 0 < m -> exists tl, zseq lo m = lo :: tl.
+Proof.
+  intro H. unfold zseq, zrange. rewrite range_len_pos by lia.
+  replace ((lo + m - lo + 1 - 1) / 1) with m by (rewrite Z.div_1_r; lia).
+  destruct (Z.to_nat (Z.max 0 m)) as [|k] eqn:E; [lia|]. cbn [seq map]. eexists. f_equal. lia.
+Qed.
+
+Lemma rup_total_ext r : r_weight_bytes r mod 16 = 0 -> rup_total r = ext r.
+Proof.
+  intro H. unfold rup_total, ext. rewrite Z.add_comm. rewrite round_up_16_add by exact H. lia.
+Qed.
+
+Lemma dma_expect_size Rd a sz src :
+  Forall (fun r => r_weight_bytes r mod 16 = 0) Rd -> fst (dma_expect Rd a sz src) = sz + total_ext Rd.
+Proof.
+  revert sz src. induction Rd as [|r Rd IH]; intros sz src F; cbn [dma_expect]; [unfold total_ext; cbn; lia|].
+  inversion F; subst. rewrite IH by assumption. rewrite rup_total_ext by assumption. rewrite total_ext_cons. lia.
+Qed.
+
+Lemma dma_expect_src_keep Rd a sz src : (forall r, In r Rd -> r_core r <> 0) -> snd (dma_expect Rd a sz src) = src.
+Proof.
+  revert sz src. induction Rd as [|r Rd IH]; intros sz src H; cbn [dma_expect]; [reflexivity|].
+  rewrite IH by (intros; apply H; right; assumption).
+  destruct (Z.eqb_spec (r_core r) 0) as [E|E]; [|reflexivity]. exfalso. apply (H r); [left; reflexivity | exact E].
+Qed.
+
+Section AddrProofs.
+  Variable enc : Z -> Z -> Z -> Z -> list Z.
+  Variables (nc n bd : Z) (do_w : bool) (biases : list Z) (qs : list (Z * Z)).
+
+  Lemma aligned_of_sections buf Rd d len :
+    Forall2 (range_ok enc nc bd do_w biases qs buf) Rd (slice_sections nc n bd (d, len)) ->
+    Forall2 (fun r c => r_core r = c /\ r_depth r = d) Rd (active_cores nc n bd).
+  Proof.
+    unfold slice_sections. cbn [fst snd]. generalize (active_cores nc n bd) as A.
+    intros A. revert Rd. induction A as [|c A IH]; intros Rd F; cbn [map] in F.
+    - inversion F. constructor.
+    - apply Forall2_cons_r_inv in F. destruct F as (r & Rd' & -> & (H1 & H2 & _) & F'). constructor; [|apply IH; exact F'].
+      cbn [fst snd] in H1, H2. tauto.
+  Qed.
+
+  (* the weight DMA of slice i reads exactly the bytes of the slice's (core, slice) ranges; its length is bounded by
+     the recorded double-buffer size of parity i mod 2 *)
+  Theorem dma_length_is_slice_lemma offs t i d len in_addr :
+    encode_layout enc nc n bd do_w biases qs offs = Some t -> strictly_increasing offs ->
+    nth_error (slice_pairs offs) i = Some (d, len) ->
+    0 < nc -> 0 < n -> core_block_depth nc bd 0 <> 0 ->
+    exists R1 Rd R2,
+      t_ranges t = R1 ++ Rd ++ R2 /\ (forall r, In r Rd -> r_depth r = d) /\ (forall r, In r (R1 ++ R2) -> r_depth r <> d) /\
+      create_dma nc (t_ranges t) d in_addr = Some (in_addr + total_ext R1, total_ext Rd) /\
+      total_ext R1 mod 16 = 0 /\ 0 <= total_ext R1 /\ total_ext R1 + total_ext Rd <= zlen (t_buffer t) /\
+      total_ext Rd = group_size (t_ranges t) d /\ total_ext Rd <= db_get (t_db t) (Z.of_nat i).
+  Proof.
+    intros E SI Hp Hnc Hn Hact0.
+    destruct (slice_ranges enc nc n bd do_w biases qs offs t i d len E SI Hp) as (R1 & Rd & R2 & HR & Fd & Hother & W & C & L & Hg & Hdb).
+    exists R1, Rd, R2. pose proof (aligned_of_sections _ _ _ _ Fd) as Al.
+    assert (Hd : forall r, In r Rd -> r_depth r = d).
+    { intros r Hr. destruct (Forall2_In_l _ _ _ _ Al Hr) as (c & _ & (_ & B)). exact B. }
+    assert (Wext : Forall (fun r => 0 <= ext r) (t_ranges t)).
+    { eapply Forall_impl; [|exact W]. intros r (_ & _ & _ & A & B & _). unfold ext.
+      pose proof (round_up_16_bounds (r_scale_bytes r)). lia. }
+    rewrite HR in Wext, C, W. apply Forall_app in Wext. destruct Wext as [We1 We']. apply Forall_app in We'. destruct We' as [Wed We2].
+    apply Forall_app in W. destruct W as [W1 W']. apply Forall_app in W'. destruct W' as [Wd W2].
+    apply chain_app in C. destruct C as [C1 C']. apply chain_app in C'. destruct C' as [Cd C2]. rewrite Z.add_0_l in Cd.
+    split; [exact HR|]. split; [exact Hd|]. split; [exact Hother|].
+    assert (Hmod : total_ext R1 mod 16 = 0).
+    { clear - W1. induction W1 as [|r l (_ & _ & M & _) F IH]; [reflexivity|]. rewrite total_ext_cons. Z.div_mod_to_equations. lia. }
+    split.
+    - unfold create_dma. rewrite HR.
+      rewrite (dma_loop_expect d (member (active_cores nc n bd)) in_addr (zseq 0 nc) R1 Rd R2 0 None).
+      + (* core 0 is the first active core *)
+        assert (HA : exists A', active_cores nc n bd = 0 :: A' /\ ~ In 0 A').
+        { unfold active_cores, cores. destruct (zseq_head 0 (Z.min nc n) ltac:(lia)) as (tl & Etl).
+          pose proof (zseq_sorted 0 (Z.min nc n)) as S. rewrite Etl in *. cbn [filter].
+          destruct (Z.eqb_spec (core_block_depth nc bd 0) 0); [contradiction|]. cbn [negb].
+          eexists. split; [reflexivity|]. intro Hin. apply filter_In in Hin. destruct Hin as [Hin _].
+          inversion S as [|? ? _ F]; subst. rewrite Forall_forall in F. specialize (F 0 Hin). lia. }
+        destruct HA as (A' & HA & Hn0). rewrite HA in Al.
+        apply Forall2_cons_r_inv in Al. destruct Al as (r0 & Rd' & -> & (Hc0 & Hd0) & Al').
+        cbn [dma_expect]. rewrite Hc0. cbn [Z.eqb].
+        pose proof (dma_expect_size Rd' in_addr (0 + rup_total r0) (Some (in_addr + r_offset r0))) as Hsz.
+        pose proof (dma_expect_src_keep Rd' in_addr (0 + rup_total r0) (Some (in_addr + r_offset r0))) as Hsrc.
+        destruct (dma_expect Rd' in_addr (0 + rup_total r0) (Some (in_addr + r_offset r0))) as [sz src].
+        cbn [fst snd] in Hsz, Hsrc. inversion Wd as [|? ? Wr0 Wd']; subst.
+        rewrite Hsrc, Hsz.
+        * destruct Cd as (O0 & _). rewrite O0. rewrite rup_total_ext by (destruct Wr0 as (_ & _ & _ & _ & _ & M & _); exact M).
+          rewrite total_ext_cons. f_equal; try (f_equal; lia).
+        * eapply Forall_impl; [|exact Wd']. intros r (_ & _ & _ & _ & _ & M & _). exact M.
+        * intros r Hr E0. destruct (Forall2_In_l _ _ _ _ Al' Hr) as (c & Hc & (Hcc & _)). rewrite E0 in Hcc. subst c. contradiction.
+      + rewrite filter_member_active. exact Al.
+      + apply sorted_NoDup, zseq_sorted.
+      + intros r0 Hr0 Hd0. exfalso. apply (Hother r0 Hr0 Hd0).
+    - split; [exact Hmod|]. split; [apply total_ext_nonneg; exact We1|]. split.
+      + rewrite L, HR, !total_ext_app. pose proof (total_ext_nonneg _ We2). lia.
+      + split; [symmetry; exact Hg | exact Hdb].
+  Qed.
+
+  Lemma cw_unbuf_co d Rd base sc co co' : cw_expect d Rd false base sc co = cw_expect d Rd false base sc co'.
+  Proof.
+    revert co co'. induction Rd as [|r Rd IH]; intros co co'; cbn [cw_expect]; [reflexivity|].
+    rewrite (IH co co'). reflexivity.
+  Qed.
+
+  Lemma cw_expect_buffered d sc w_addr Rd : forall start idx co,
+    chain start idx Rd -> Forall (fun r => r_weight_bytes r mod 16 = 0) Rd ->
+    cw_expect d Rd true w_addr sc co = cw_expect d Rd false (w_addr + co - start) sc 0.
+  Proof.
+    induction Rd as [|r Rd IH]; intros start idx co C F; cbn [cw_expect]; [reflexivity|].
+    destruct C as (O & _ & C). inversion F; subst.
+    rewrite (IH _ _ (co + rup_total r) C) by assumption. rewrite rup_total_ext by assumption.
+    replace (w_addr + (co + ext r) - (r_offset r + ext r)) with (w_addr + co - r_offset r) by lia.
+    replace (w_addr + co - r_offset r + r_offset r) with (w_addr + co) by lia. reflexivity.
+  Qed.
+
+  Lemma cw_expect_unbuffered_none d base Rd co :
+    cw_expect d Rd false base None co =
+    Some (map (fun r => (base + r_offset r + r_weight_offset r, round_up (r_weight_bytes r) 16)) Rd,
+          map (fun r => (base + r_offset r, round_up (r_scale_bytes r) 16)) Rd).
+  Proof.
+    revert co. induction Rd as [|r Rd IH]; intro co; cbn [cw_expect map]; [reflexivity|]. rewrite IH. reflexivity.
+  Qed.
+
+  Definition in_window (lo hi base : Z) (p : Z * Z) : Prop :=
+    lo <= fst p /\ 0 <= snd p /\ fst p + snd p <= hi /\ (fst p - base) mod 16 = 0.
+
+  (* the weight and scale address ranges handed to the register generator for the slice starting at channel d:
+     they are the weight / scale sections of the slice's (core, slice) ranges, 16-byte aligned relative to the tensor,
+     inside the tensor (weights straight from the encoded tensor) or inside the double buffer of the slice's parity
+     (weights DMA-ed into a buffer of double_buffer_sizes[i mod 2] bytes) *)
+  Theorem npu_ranges_inside_tensor_lemma offs t i d len :
+    encode_layout enc nc n bd do_w biases qs offs = Some t -> do_w = true -> strictly_increasing offs ->
+    nth_error (slice_pairs offs) i = Some (d, len) -> 0 < nc ->
+    exists R1 Rd R2,
+      t_ranges t = R1 ++ Rd ++ R2 /\ (forall r, In r Rd -> r_depth r = d) /\ (forall r, In r (R1 ++ R2) -> r_depth r <> d) /\
+      forall (buffered : bool) (w_addr : Z),
+        let base := if buffered then w_addr - total_ext R1 else w_addr in
+        let ws := map (fun r => (base + r_offset r + r_weight_offset r, r_weight_bytes r)) Rd in
+        let bs := map (fun r => (base + r_offset r, r_weight_offset r)) Rd in
+        create_weights nc (t_ranges t) d buffered w_addr None = Some (ws, bs) /\
+        Forall (in_window w_addr (w_addr + (if buffered then db_get (t_db t) (Z.of_nat i) else zlen (t_buffer t))) w_addr)
+               (ws ++ bs).
+  Proof.
+    intros E Edw SI Hp Hnc.
+    destruct (slice_ranges enc nc n bd do_w biases qs offs t i d len E SI Hp) as (R1 & Rd & R2 & HR & Fd & Hother & W & C & L & Hg & Hdb).
+    exists R1, Rd, R2. pose proof (aligned_of_sections _ _ _ _ Fd) as Al.
+    assert (Hd : forall r, In r Rd -> r_depth r = d).
+    { intros r Hr. destruct (Forall2_In_l _ _ _ _ Al Hr) as (c & _ & (_ & B)). exact B. }
+    split; [exact HR|]. split; [exact Hd|]. split; [exact Hother|].
+    assert (Wext : Forall (fun r => 0 <= ext r) (t_ranges t)).
+    { eapply Forall_impl; [|exact W]. intros r (_ & _ & _ & A & B & _). unfold ext.
+      pose proof (round_up_16_bounds (r_scale_bytes r)). lia. }
+    rewrite HR in Wext, C, W. apply Forall_app in Wext. destruct Wext as [We1 We']. apply Forall_app in We'. destruct We' as [Wed We2].
+    apply Forall_app in W. destruct W as [W1 W']. apply Forall_app in W'. destruct W' as [Wd W2].
+    apply chain_app in C. destruct C as [C1 C']. apply chain_app in C'. destruct C' as [Cd C2]. rewrite Z.add_0_l in Cd.
+    assert (Hmod : total_ext R1 mod 16 = 0).
+    { clear - W1. induction W1 as [|r l (_ & _ & M & _) F IH]; [reflexivity|]. rewrite total_ext_cons. Z.div_mod_to_equations. lia. }
+    pose proof (total_ext_nonneg _ We1) as N1. pose proof (total_ext_nonneg _ We2) as N2.
+    assert (Htot : total_ext R1 + total_ext Rd <= zlen (t_buffer t)).
+    { rewrite L, HR, !total_ext_app. lia. }
+    assert (Wm : Forall (fun r => r_weight_bytes r mod 16 = 0) Rd).
+    { eapply Forall_impl; [|exact Wd]. intros r (_ & _ & _ & _ & _ & M & _). exact M. }
+    intros buffered w_addr base ws bs. split.
+    - unfold create_weights. rewrite HR.
+      rewrite (cw_loop_expect d (member (active_cores nc n bd)) buffered w_addr None (zseq 0 nc) R1 Rd R2 0).
+      + assert (Hform : cw_expect d Rd buffered w_addr None 0 = cw_expect d Rd false base None 0).
+        { subst base. destruct buffered; [|reflexivity].
+          rewrite (cw_expect_buffered d None w_addr Rd _ _ 0 Cd Wm). f_equal. lia. }
+        rewrite Hform, cw_expect_unbuffered_none. subst ws bs. f_equal. f_equal.
+        * apply map_ext_in. intros r Hr. rewrite Forall_forall in Wm. rewrite round_up_16_id by (apply Wm; exact Hr). reflexivity.
+        * apply map_ext_in. intros r Hr. rewrite Forall_forall in Wd. destruct (Wd r Hr) as (_ & _ & _ & _ & _ & _ & _ & X).
+          rewrite Edw in X. destruct X as [X _]. rewrite X. reflexivity.
+      + rewrite filter_member_active. exact Al.
+      + apply sorted_NoDup, zseq_sorted.
+      + intros r0 Hr0 Hd0. exfalso. apply (Hother r0 Hr0 Hd0).
+    - apply Forall_app. subst ws bs. rewrite !Forall_map, !Forall_forall.
+      assert (Hin : forall r, In r Rd ->
+                total_ext R1 <= r_offset r /\ r_offset r + ext r <= total_ext R1 + total_ext Rd /\ r_offset r mod 16 = 0 /\
+                r_weight_offset r = round_up (r_scale_bytes r) 16 /\ 0 <= r_scale_bytes r /\ 0 <= r_weight_bytes r).
+      { intros r Hr. destruct (chain_upper _ _ _ Cd Wed r Hr) as [A B].
+        rewrite Forall_forall in Wd. destruct (Wd r Hr) as (_ & M & _ & S0 & W0 & _ & _ & X). rewrite Edw in X. tauto. }
+      assert (Hwin : (if buffered then db_get (t_db t) (Z.of_nat i) else zlen (t_buffer t)) >=
+                     (if buffered then total_ext Rd else total_ext R1 + total_ext Rd)) by (destruct buffered; lia).
+      split; intros r Hr; destruct (Hin r Hr) as (A & B & M & X & S0 & W0); unfold in_window, ext in *; cbn [fst snd];
+        pose proof (round_up_16_bounds (r_scale_bytes r)); pose proof (round_up_16_mod (r_scale_bytes r));
+        subst base; destruct buffered; repeat split; try lia; rewrite ?X; Z.div_mod_to_equations; lia.
+  Qed.
+End AddrProofs.
+
+(* ---- a separate scale tensor (the weights tensor came from the cache, the scales were encoded on their own) *)
+Lemma od_get_aligned d A : forall pre Sd post,
+  Forall2 (fun r c => r_core r = c /\ r_depth r = d) Sd A -> NoDup A ->
+  (forall r0, In r0 (pre ++ post) -> r_depth r0 = d -> ~ In (r_core r0) A) ->
+  Forall2 (fun sr c => od_get (pre ++ Sd ++ post) c d = Some sr) Sd A.
+Proof.
+  induction A as [|c A IH]; intros pre Sd post F ND Hfr.
+  - inversion F. constructor.
+  - apply Forall2_cons_r_inv in F. destruct F as (r & Sd' & -> & [Hc Hd] & F').
+    destruct (lookup_step d pre r Sd' post c A ND Hc Hd Hfr) as [Hget Hfr'].
+    constructor; [exact Hget|]. inversion ND; subst.
+    replace (pre ++ (r :: Sd') ++ post) with ((pre ++ [r]) ++ Sd' ++ post) by (rewrite <- !app_assoc; reflexivity).
+    apply IH; assumption.
+Qed.
+
+Lemma cw_expect_unbuffered_some d base srs s_addr A : forall Rd Sd co,
+  Forall2 (fun r c => r_core r = c /\ r_depth r = d) Rd A ->
+  Forall2 (fun sr c => od_get srs c d = Some sr) Sd A ->
+  cw_expect d Rd false base (Some (srs, s_addr)) co =
+  Some (map (fun r => (base + r_offset r + r_weight_offset r, round_up (r_weight_bytes r) 16)) Rd,
+        map (fun sr => (s_addr + r_offset sr, round_up (r_scale_bytes sr) 16)) Sd).
+Proof.
+  induction A as [|c A IH]; intros Rd Sd co F1 F2.
+  - inversion F1. inversion F2. reflexivity.
+  - apply Forall2_cons_r_inv in F1. destruct F1 as (r & Rd' & -> & [Hc Hd] & F1').
+    apply Forall2_cons_r_inv in F2. destruct F2 as (sr & Sd' & -> & Hg & F2').
+    cbn [cw_expect map]. rewrite Hc, Hg. rewrite (IH Rd' Sd' co F1' F2'). reflexivity.
+Qed.
+
+Theorem npu_scale_ranges_inside_scale_tensor_lemma
+        enc enc' nc n bd biases qs biases' qs' offs t ts i d len :
+  encode_layout enc nc n bd true biases qs offs = Some t ->
+  encode_layout enc' nc n bd false biases' qs' offs = Some ts ->
+  strictly_increasing offs -> nth_error (slice_pairs offs) i = Some (d, len) -> 0 < nc ->
+  exists R1 Rd R2 S1 Sd S2,
+    t_ranges t = R1 ++ Rd ++ R2 /\ t_ranges ts = S1 ++ Sd ++ S2 /\
+    map r_core Sd = map r_core Rd /\ (forall r, In r (Rd ++ Sd) -> r_depth r = d) /\
+    (forall r, In r (R1 ++ R2 ++ S1 ++ S2) -> r_depth r <> d) /\
+    forall (buffered : bool) (w_addr s_addr : Z),
+      let base := if buffered then w_addr - total_ext R1 else w_addr in
+      let ws := map (fun r => (base + r_offset r + r_weight_offset r, r_weight_bytes r)) Rd in
+      let bs := map (fun sr => (s_addr + r_offset sr, round_up (r_scale_bytes sr) 16)) Sd in
+      create_weights nc (t_ranges t) d buffered w_addr (Some (t_ranges ts, s_addr)) = Some (ws, bs) /\
+      Forall (in_window s_addr (s_addr + zlen (t_buffer ts)) s_addr) bs.
+Proof.
+  intros E Es SI Hp Hnc.
+  destruct (slice_ranges enc nc n bd true biases qs offs t i d len E SI Hp) as (R1 & Rd & R2 & HR & Fd & Hother & W & C & L & Hg & Hdb).
+  destruct (slice_ranges enc' nc n bd false biases' qs' offs ts i d len Es SI Hp) as (S1 & Sd & S2 & HS & Fs & Hothers & Ws & Cs & Ls & _ & _).
+  exists R1, Rd, R2, S1, Sd, S2.
+  pose proof (aligned_of_sections _ _ _ _ _ _ _ _ _ _ _ Fd) as Al.
+  pose proof (aligned_of_sections _ _ _ _ _ _ _ _ _ _ _ Fs) as Als.
+  assert (Hmap : forall X, Forall2 (fun (r : wrange) (c : Z) => r_core r = c /\ r_depth r = d) X (active_cores nc n bd) ->
+                           map r_core X = active_cores nc n bd).
+  { intro X. generalize (active_cores nc n bd). intros A F. induction F as [|r c X' A' [Hc _] F IH]; [reflexivity|].
+    cbn [map]. rewrite IH, Hc. reflexivity. }
+  split; [exact HR|]. split; [exact HS|]. split; [rewrite (Hmap _ Al), (Hmap _ Als); reflexivity|].
+  split.
+  { intros r Hr. apply in_app_or in Hr. destruct Hr as [Hr|Hr].
+    - destruct (Forall2_In_l _ _ _ _ Al Hr) as (c & _ & (_ & B)). exact B.
+    - destruct (Forall2_In_l _ _ _ _ Als Hr) as (c & _ & (_ & B)). exact B. }
+  split.
+  { intros r Hr. rewrite app_assoc in Hr. apply in_app_or in Hr. destruct Hr as [Hr|Hr]; [apply Hother | apply Hothers]; exact Hr. }
+  intros buffered w_addr s_addr base ws bs.
+  assert (Wm : Forall (fun r => r_weight_bytes r mod 16 = 0) Rd).
+  { rewrite HR in W. apply Forall_app in W. destruct W as [_ W']. apply Forall_app in W'. destruct W' as [Wd _].
+    eapply Forall_impl; [|exact Wd]. intros r (_ & _ & _ & _ & _ & M & _). exact M. }
+  assert (Cd : chain (total_ext R1) (zlen R1) Rd).
+  { rewrite HR in C. apply chain_app in C. destruct C as [_ C']. apply chain_app in C'. destruct C' as [Cd _].
+    rewrite !Z.add_0_l in Cd. exact Cd. }
+  split.
+  - unfold create_weights. rewrite HR.
+    rewrite (cw_loop_expect d (member (active_cores nc n bd)) buffered w_addr (Some (t_ranges ts, s_addr)) (zseq 0 nc) R1 Rd R2 0).
+    + assert (Hform : cw_expect d Rd buffered w_addr (Some (t_ranges ts, s_addr)) 0 =
+                      cw_expect d Rd false base (Some (t_ranges ts, s_addr)) 0).
+      { subst base. destruct buffered; [|reflexivity].
+        rewrite (cw_expect_buffered d _ w_addr Rd _ _ 0 Cd Wm). f_equal. lia. }
+      rewrite Hform.
+      rewrite (cw_expect_unbuffered_some d base (t_ranges ts) s_addr (active_cores nc n bd) Rd Sd 0 Al).
+      * subst ws bs. f_equal. f_equal. apply map_ext_in. intros r Hr. rewrite Forall_forall in Wm.
+        rewrite round_up_16_id by (apply Wm; exact Hr). reflexivity.
+      * rewrite HS. apply od_get_aligned; [exact Als | apply active_cores_NoDup |].
+        intros r0 Hr0 Hd0. exfalso. apply (Hothers r0 Hr0 Hd0).
+    + rewrite filter_member_active. exact Al.
+    + apply sorted_NoDup, zseq_sorted.
+    + intros r0 Hr0 Hd0. exfalso. apply (Hother r0 Hr0 Hd0).
+  - subst bs. rewrite Forall_map, Forall_forall. intros sr Hsr.
+    assert (Hin : In sr (t_ranges ts)) by (rewrite HS; apply in_or_app; right; apply in_or_app; left; exact Hsr).
+    rewrite Forall_forall in Ws. destruct (Ws sr Hin) as (O0 & M & _ & S0 & _ & _ & B & X). destruct X as [_ X0].
+    unfold in_window, ext in *. cbn [fst snd]. rewrite X0 in B.
+    pose proof (round_up_16_bounds (r_scale_bytes sr)). repeat split; try lia.
+    replace (s_addr + r_offset sr - s_addr) with (r_offset sr) by lia. exact M.
+Qed.
+
+(* ================================================================== the encoding exists (no assertion fails) *)
+Section Total.
+  Variable enc : Z -> Z -> Z -> Z -> list Z.
+  Variables (nc n bd : Z) (do_w : bool) (biases : list Z) (qs : list (Z * Z)).
+  Hypothesis enc_mult16 : do_w = true -> forall c d l b, zlen (enc c d l b) mod 16 = 0.
+
+  Lemma core_step_total d len core s :
+    zlen (s_stream s) mod 16 = 0 ->
+    (core_block_depth nc bd core <> 0 -> sec_scales nc biases qs (core, d, len) <> None) ->
+    exists s', core_step enc nc bd do_w biases qs d len core s = Some s' /\ zlen (s_stream s') mod 16 = 0.
+  Proof.
+    intros Hm Hs. unfold core_step. destruct (Z.eqb_spec (core_block_depth nc bd core) 0) as [E0|E0]; [eauto|].
+    specialize (Hs E0). unfold sec_scales in Hs.
+    destruct (scale_stream (py_slice biases (d + core) (d + core + len) nc) (py_slice qs (d + core) (d + core + len) nc)) as [ss|];
+      [|congruence].
+    destruct (pad16_spec (s_stream s ++ ss)) as (z & _ & Hzl). pose proof (round_up_16_mod (zlen (s_stream s ++ ss))) as RM.
+    destruct do_w eqn:Edw.
+    - specialize (enc_mult16 eq_refl core d len (core_block_depth nc bd core)).
+      assert (Hmod : zlen (pad16 (s_stream s ++ ss) ++ enc core d len (core_block_depth nc bd core)) mod 16 = 0).
+      { rewrite zlen_app, Hzl. Z.div_mod_to_equations. lia. }
+      rewrite Hmod. cbn [Z.eqb]. eexists. split; [reflexivity|]. cbn [s_stream]. exact Hmod.
+    - eexists. split; [reflexivity|]. cbn [s_stream]. rewrite Hzl. exact RM.
+  Qed.
+
+  Lemma cores_loop_total d len cs : forall s,
+    zlen (s_stream s) mod 16 = 0 ->
+    (forall c, In c cs -> core_block_depth nc bd c <> 0 -> sec_scales nc biases qs (c, d, len) <> None) ->
+    exists s', cores_loop enc nc bd do_w biases qs d len cs s = Some s' /\ zlen (s_stream s') mod 16 = 0.
+  Proof.
+    induction cs as [|c cs IH]; intros s Hm Hs; cbn [cores_loop]; [eauto|].
+    destruct (core_step_total d len c s Hm (Hs c (or_introl eq_refl))) as (s1 & -> & Hm1).
+    apply IH; [exact Hm1|]. intros c' Hc'. apply Hs. right. exact Hc'.
+  Qed.
+
+  Lemma slices_loop_total offs : forall idx s db,
+    zlen (s_stream s) mod 16 = 0 ->
+    (forall p, In p (slice_pairs offs) -> 0 <= fst p < n) ->
+    (forall sec, In sec (sections nc n bd offs) -> sec_scales nc biases qs sec <> None) ->
+    exists r, slices_loop enc nc n bd do_w biases qs offs idx s db = Some r.
+  Proof.
+    induction offs as [|a t IH]; intros idx s db Hm Hp Hs; [cbn; eauto|].
+    destruct t as [|b t]; [cbn; eauto|].
+    change (slices_loop enc nc n bd do_w biases qs (a :: b :: t) idx s db) with
+      (match slice_step enc nc n bd do_w biases qs idx a b s db with
+       | None => None
+       | Some (s1, db1) => slices_loop enc nc n bd do_w biases qs (b :: t) (idx + 1) s1 db1
+       end).
+    unfold slice_step. rewrite slice_pairs_cons in Hp.
+    pose proof (Hp (a, b - a) (or_introl eq_refl)) as Ha. cbn [fst] in Ha.
+    replace ((0 <=? a) && (a <? n)) with true by (symmetry; apply andb_true_iff; split; [apply Z.leb_le | apply Z.ltb_lt]; lia).
+    unfold sections in Hs. rewrite slice_pairs_cons in Hs. cbn [flat_map] in Hs.
+    destruct (cores_loop_total a (b - a) (cores nc n) s Hm) as (s1 & -> & Hm1).
+    { intros c Hc Hact. apply Hs. apply in_or_app. left. unfold slice_sections. cbn [fst snd]. apply in_map_iff.
+      exists c. split; [reflexivity|]. unfold active_cores. apply filter_In. split; [exact Hc|].
+      apply negb_true_iff. apply Z.eqb_neq. exact Hact. }
+    apply IH; [exact Hm1 | |].
+    - intros p Hin. apply Hp. right. exact Hin.
+    - intros sec Hin. apply Hs. apply in_or_app. right. exact Hin.
+  Qed.
+
+  (* closed slices inside the operator's depth and in-range records: the encoding exists *)
+  Theorem encode_layout_total offs :
+    1 < zlen offs ->
+    (forall p, In p (slice_pairs offs) -> 0 <= fst p < n) ->
+    (forall sec, In sec (sections nc n bd offs) -> sec_scales nc biases qs sec <> None) ->
+    exists t, encode_layout enc nc n bd do_w biases qs offs = Some t.
+  Proof.
+    intros Hl Hp Hs. unfold encode_layout. destruct (Z.leb_spec (zlen offs) 1); [lia|].
+    destruct (slices_loop_total offs 0 (mkSt [] [] 0) (0, 0) eq_refl Hp Hs) as ([s db] & ->). eauto.
+  Qed.
+End Total.
+
+(* a successful encoding (with or without weights) shows the premises of encode_layout_total *)
+Lemma encode_layout_premises enc nc n bd do_w biases qs offs t :
+  encode_layout enc nc n bd do_w biases qs offs = Some t -> strictly_increasing offs ->
+  1 < zlen offs /\ (forall p, In p (slice_pairs offs) -> 0 <= fst p < n) /\
+  (forall sec, In sec (sections nc n bd offs) -> sec_scales nc biases qs sec <> None).
+Proof.
+  intros E SI. destruct (layout_spec _ _ _ _ _ _ _ _ _ E SI) as (F & _ & _ & _ & Hp & Hl).
+  split; [exact Hl|]. split; [exact Hp|].
+  intros sec Hsec. apply Forall2_flip in F.
+  destruct (Forall2_In_l _ _ _ _ F Hsec) as (r & _ & (_ & _ & _ & _ & _ & _ & _ & (ss & S1 & _) & _)). congruence.
+Qed.
+
+(* ================================================================== CompressedWeightCache *)
+Lemma NoDup_app_intro {A} (l1 l2 : list A) :
+  NoDup l1 -> NoDup l2 -> (forall x, In x l1 -> ~ In x l2) -> NoDup (l1 ++ l2).
+Proof.
+  induction 1 as [|a l1 Hn ND IH]; intros ND2 Hd; cbn [app]; [exact ND2|].
+  constructor.
+  - intro Hin. apply in_app_or in Hin. destruct Hin as [Hin|Hin]; [contradiction|]. apply (Hd a); [left; reflexivity | exact Hin].
+  - apply IH; [exact ND2|]. intros x Hx. apply Hd. right. exact Hx.
+Qed.
+
+Lemma sections_keys_NoDup nc n bd offs :
+  strictly_increasing offs -> NoDup (map key_of_sec (sections nc n bd offs)).
+Proof.
+  unfold sections. induction offs as [|a t IH]; [constructor|]. destruct t as [|b t]; [constructor|].
+  intro SI. apply strictly_increasing_cons in SI. destruct SI as [Hab SI].
+  rewrite slice_pairs_cons. cbn [flat_map]. rewrite map_app. apply NoDup_app_intro.
+  - unfold slice_sections. rewrite map_map. cbn [fst snd key_of_sec].
+    pose proof (active_cores_NoDup nc n bd) as ND. induction ND as [|c A Hn ND IHA]; cbn [map]; constructor; [|exact IHA].
+    intro Hin. apply in_map_iff in Hin. destruct Hin as (c' & E & Hc'). inversion E. subst. contradiction.
+  - apply IH. exact SI.
+  - intros k Hk Hk2. unfold slice_sections in Hk. rewrite map_map in Hk. apply in_map_iff in Hk. destruct Hk as (c & <- & _).
+    apply in_map_iff in Hk2. destruct Hk2 as (sec & Ek & Hsec). apply in_flat_map in Hsec. destruct Hsec as (p & Hp & Hs).
+    unfold slice_sections in Hs. apply in_map_iff in Hs. destruct Hs as (c' & <- & _).
+    cbn [key_of_sec fst snd] in Ek. inversion Ek.
+    pose proof (slice_pairs_bounds _ _ SI Hp) as (B & _). cbn [hd] in B. lia.
+Qed.
+
+Lemma od_get_NoDup rs r :
+  NoDup (map key_of_range rs) -> In r rs -> od_get rs (r_core r) (r_depth r) = Some r.
+Proof.
+  induction rs as [|x rs IH]; intros ND Hin; [destruct Hin|]. cbn [map] in ND. inversion ND as [|? ? Hn ND']; subst.
+  cbn [od_get]. unfold key_eqb.
+  destruct (Z.eqb_spec (r_core x) (r_core r)) as [E1|E1]; destruct (Z.eqb_spec (r_depth x) (r_depth r)) as [E2|E2]; cbn [andb].
+  - destruct Hin as [->|Hin]; [reflexivity|]. exfalso. apply Hn. apply in_map_iff. exists r. split; [|exact Hin].
+    unfold key_of_range. congruence.
+  - destruct Hin as [->|Hin]; [congruence|]. apply IH; assumption.
+  - destruct Hin as [->|Hin]; [congruence|]. apply IH; assumption.
+  - destruct Hin as [->|Hin]; [congruence|]. apply IH; assumption.
+Qed.
+
+Lemma Forall2_attach {A B C} (P : A -> C -> Prop) (Q : B -> C -> Prop) l1 l2 l :
+  Forall2 P l1 l -> Forall2 Q l2 l -> Forall2 (fun a c => P a c /\ exists b, In b l2 /\ Q b c) l1 l.
+Proof.
+  intro F. revert l2. induction F as [|a c l1 l Hp F IH]; intros l2 G; inversion G; subst; constructor.
+  - split; [exact Hp|]. eexists. split; [left; reflexivity | eassumption].
+  - eapply Forall2_imp; [|apply IH; eassumption]. intros a0 c0 (X & b0 & Hb & Y). split; [exact X|].
+    exists b0. split; [right; exact Hb | exact Y].
+Qed.
+
+Lemma Forall2_map_eq {A B C} (P : A -> B -> Prop) (f : A -> C) (g : B -> C) l1 l2 :
+  Forall2 P l1 l2 -> (forall a b, In a l1 -> P a b -> f a = g b) -> map f l1 = map g l2.
+Proof.
+  induction 1 as [|a b l1 l2 H F IH]; intro E; [reflexivity|]. cbn [map]. f_equal.
+  - apply E; [left; reflexivity | exact H].
+  - apply IH. intros. apply E; [right; assumption | assumption].
+Qed.
+
+Lemma list_eqb_eq a b : list_eqb a b = true -> a = b.
+Proof.
+  revert b. induction a as [|x a IH]; intros [|y b]; cbn [list_eqb]; try discriminate; [reflexivity|].
+  intro H. apply andb_true_iff in H. destruct H as [E1 E2]. apply Z.eqb_eq in E1. subst. f_equal. apply IH. exact E2.
+Qed.
+
+Lemma wkey_eqb_eq a b : wkey_eqb a b = true -> a = b.
+Proof.
+  destruct a as [[[[a1 a2] a3] [a4 a5]] a6]. destruct b as [[[[b1 b2] b3] [b4 b5]] b6]. unfold wkey_eqb.
+  intro H. repeat (apply andb_true_iff in H; destruct H as [H ?]).
+  repeat match goal with X : (_ =? _) = true |- _ => apply Z.eqb_eq in X end.
+  match goal with X : list_eqb _ _ = true |- _ => apply list_eqb_eq in X end. subst. reflexivity.
+Qed.
+
+Lemma skey_eqb_eq a b : skey_eqb a b = true -> a = b.
+Proof.
+  destruct a as [[a1 a2] a3]. destruct b as [[b1 b2] b3]. unfold skey_eqb.
+  intro H. repeat (apply andb_true_iff in H; destruct H as [H ?]).
+  repeat match goal with X : (_ =? _) = true |- _ => apply Z.eqb_eq in X end. subst. reflexivity.
+Qed.
+
+Lemma cache_get_In c k e : cache_get c k = Some e -> In e c /\ e_key e = k.
+Proof.
+  induction c as [|x c IH]; cbn [cache_get]; [discriminate|].
+  destruct (wkey_eqb (e_key x) k) eqn:E.
+  - intro H. inversion H. subst. split; [left; reflexivity | apply wkey_eqb_eq; exact E].
+  - intro H. destruct (IH H). split; [right; assumption | assumption].
+Qed.
+
+Lemma cache_set_In c e x : In x (cache_set c e) -> x = e \/ In x c.
+Proof.
+  induction c as [|y c IH]; cbn [cache_set]; [intros [<-|[]]; left; reflexivity|].
+  destruct (wkey_eqb (e_key y) (e_key e)).
+  - intros [<-|H]; [left; reflexivity | right; right; exact H].
+  - intros [<-|H]; [right; left; reflexivity|]. destruct (IH H); [left; assumption | right; right; assumption].
+Qed.
+
+Section CacheProofs.
+  Variable codec : wparams -> Z -> Z -> Z -> Z -> list Z.
+
+  Definition wf_request (q : request) : Prop := strictly_increasing (wp_slices (q_wp q)).
+
+  (* requests with equal cache keys have equal inputs: the weight key determines everything the weight stream depends on,
+     and together with the scale key everything the scale records depend on *)
+  Definition key_determines_inputs (h : list request) : Prop :=
+    forall q1 q2, In q1 h -> In q2 h -> wkey_of q1 = wkey_of q2 ->
+      q_wp q1 = q_wp q2 /\
+      (skey_of q1 = skey_of q2 -> q_biases q1 = q_biases q2 /\ q_qscales q1 = q_qscales q2).
+
+  Definition q_sections (q : request) : list (Z * Z * Z) :=
+    let w := q_wp q in sections (wp_ncores w) (wp_ofm_depth w) (wp_block_depth w) (wp_slices w).
+  Definition spec_entry (qw qs : request) (sec : Z * Z * Z) : Z * Z * option (list Z) * list Z :=
+    (fst (fst sec), snd (fst sec),
+     sec_scales (wp_ncores (q_wp qs)) (q_biases qs) (q_qscales qs) sec,
+     sec_weights (codec (q_wp qw)) (wp_ncores (q_wp qw)) (wp_block_depth (q_wp qw)) sec).
+
+  Lemma effective_fresh q t :
+    encode_req codec q true = Some t -> wf_request q -> effective (t, None) = map (spec_entry q q) (q_sections q).
+  Proof.
+    intros E WF. unfold encode_req in E. destruct (layout_spec _ _ _ _ _ _ _ _ _ E WF) as (F & _).
+    unfold effective, q_sections. eapply Forall2_map_eq; [exact F|].
+    intros r sec _ (A & B & _ & _ & _ & _ & _ & (ss & S1 & S2 & S3) & (W1 & W2 & W3)).
+    unfold spec_entry. rewrite A, B, S1, S2, S3, W3. reflexivity.
+  Qed.
+
+  Lemma effective_scale_only qw q tw ts :
+    encode_req codec qw true = Some tw -> encode_req codec q false = Some ts ->
+    q_wp qw = q_wp q -> wf_request q ->
+    effective (tw, Some ts) = map (spec_entry qw q) (q_sections q).
+  Proof.
+    intros Ew Es Hwp WF. unfold encode_req in Ew, Es. rewrite Hwp in Ew.
+    destruct (layout_spec _ _ _ _ _ _ _ _ _ Ew WF) as (Fw & _).
+    destruct (layout_spec _ _ _ _ _ _ _ _ _ Es WF) as (Fs & _).
+    assert (NDs : NoDup (map key_of_range (t_ranges ts))).
+    { rewrite (range_ok_keys _ _ _ _ _ _ _ _ _ Fs). apply sections_keys_NoDup. exact WF. }
+    unfold effective, q_sections.
+    pose proof (Forall2_attach _ _ _ _ _ Fw Fs) as J.
+    eapply Forall2_map_eq; [exact J|].
+    intros r sec _ ((A & B & _ & _ & _ & _ & _ & _ & (W1 & W2 & W3)) & y & Hy & (As & Bs & _ & _ & _ & _ & _ & (ss & S1 & S2 & S3) & _)).
+    assert (K1 : r_core y = r_core r) by congruence. assert (K2 : r_depth y = r_depth r) by congruence.
+    rewrite <- K1, <- K2. rewrite (od_get_NoDup _ _ NDs Hy).
+    unfold spec_entry. rewrite S2, S3, W3, As, Bs, S1, Hwp. reflexivity.
+  Qed.
+
+  (* every cache entry was produced by a fresh encoding of an earlier request with that key *)
+  Definition cache_inv (c : cache) (seen : list request) : Prop :=
+    forall e, In e c -> exists q', In q' seen /\ e_key e = wkey_of q' /\ encode_req codec q' true = Some (e_tensor e) /\
+                                  e_scc e = skey_of q'.
+
+  Lemma encode_req_ext q q' do_w :
+    q_wp q = q_wp q' -> q_biases q = q_biases q' -> q_qscales q = q_qscales q' -> encode_req codec q do_w = encode_req codec q' do_w.
+  Proof. intros H1 H2 H3. unfold encode_req. rewrite H1, H2, H3. reflexivity. Qed.
+
+  Lemma respond_sound c seen q c' r :
+    cache_inv c seen -> key_determines_inputs (q :: seen) -> wf_request q ->
+    respond codec c q = Some (c', r) ->
+    cache_inv c' (q :: seen) /\
+    forall tf, fresh codec q = Some tf -> effective r = effective tf.
+  Proof.
+    intros Inv KD WF. unfold respond.
+    destruct (cache_get c (wkey_of q)) as [e|] eqn:Eg.
+    - destruct (cache_get_In _ _ _ Eg) as [Hin Hk].
+      destruct (Inv e Hin) as (q' & Hq' & Hk' & Henc & Hscc).
+      assert (Hkeys : wkey_of q = wkey_of q') by congruence.
+      destruct (KD q q' (or_introl eq_refl) (or_intror Hq') Hkeys) as [Hwp Hsc].
+      destruct (skey_eqb (e_scc e) (skey_of q)) eqn:Es.
+      + intro E. inversion E. subst c' r. split.
+        * intros e0 H0. destruct (Inv e0 H0) as (q0 & A & B). exists q0. split; [right; exact A | exact B].
+        * apply skey_eqb_eq in Es. destruct (Hsc ltac:(congruence)) as [Hb Hq].
+          intros tf Hf. unfold fresh in Hf. rewrite (encode_req_ext q q' true Hwp Hb Hq), Henc in Hf.
+          inversion Hf. reflexivity.
+      + destruct (encode_req codec q false) as [ts|] eqn:Ets; [|discriminate].
+        intro E. inversion E. subst c' r. split.
+        * intros e0 H0. destruct (Inv e0 H0) as (q0 & A & B). exists q0. split; [right; exact A | exact B].
+        * intros tf Hf. unfold fresh in Hf. destruct (encode_req codec q true) as [t|] eqn:Et; [|discriminate].
+          inversion Hf. subst tf.
+          rewrite (effective_scale_only q' q (e_tensor e) ts Henc Ets (eq_sym Hwp) WF).
+          rewrite (effective_fresh q t Et WF).
+          apply map_ext. intro sec. unfold spec_entry. rewrite Hwp. reflexivity.
+    - destruct (encode_req codec q true) as [t|] eqn:Et; [|discriminate].
+      intro E. inversion E. subst c' r. split.
+      + intros e0 H0. apply cache_set_In in H0. destruct H0 as [->|H0].
+        * exists q. cbn [e_key e_tensor e_scc]. repeat split; [left; reflexivity | exact Et].
+        * destruct (Inv e0 H0) as (q0 & A & B). exists q0. split; [right; exact A | exact B].
+      + intros tf Hf. unfold fresh in Hf. rewrite Et in Hf. inversion Hf. reflexivity.
+  Qed.
+
+  Lemma run_sound h : forall c seen resps,
+    cache_inv c seen -> key_determines_inputs (rev h ++ seen) -> Forall wf_request h ->
+    run codec c h = Some resps ->
+    Forall2 (fun q r => forall tf, fresh codec q = Some tf -> effective r = effective tf) h resps.
+  Proof.
+    induction h as [|q h IH]; intros c seen resps Inv KD WF; cbn [run].
+    - intro E. inversion E. constructor.
+    - destruct (respond codec c q) as [[c' r]|] eqn:Er; [|discriminate].
+      destruct (run codec c' h) as [rs|] eqn:Erun; [|discriminate].
+      intro E. inversion E. subst resps. inversion WF as [|? ? WFq WFh]; subst.
+      assert (KDq : key_determines_inputs (q :: seen)).
+      { intros q1 q2 H1 H2. apply KD; cbn [rev]; rewrite <- app_assoc; apply in_or_app; right; assumption. }
+      destruct (respond_sound c seen q c' r Inv KDq WFq Er) as [Inv' Hr].
+      constructor; [exact Hr|].
+      apply (IH c' (q :: seen) rs Inv'); [|exact WFh | exact Erun].
+      cbn [rev] in KD. rewrite <- app_assoc in KD. exact KD.
+  Qed.
+
+  (* under key_determines_inputs every response of a history (misses and hits) carries, for every (core, slice) key, the
+     same scale bytes and weight bytes as a fresh encoding of that request *)
+  Theorem cache_reuse_sound_lemma h resps :
+    key_determines_inputs h -> Forall wf_request h -> run codec [] h = Some resps ->
+    Forall2 (fun q r => forall tf, fresh codec q = Some tf -> effective r = effective tf) h resps.
+  Proof.
+    intros KD WF E. apply (run_sound h [] [] resps); try assumption.
+    - intros e [].
+    - rewrite app_nil_r. intros q1 q2 H1 H2. apply KD; apply in_rev; assumption.
+  Qed.
+End CacheProofs.
+
+(* ---- what the key does not contain *)
+Definition q0 : request :=
+  mkQ (mkWP 1 16 16 [0; 16] 1 1 1 8 0 false 7) 100 200 1 2 [1; 2; 3; 4; 5; 6; 7; 8; 9; 10; 11; 12; 13; 14; 15; 16]
+      (repeat (1073741824, 30) 16).
+Definition set_wp (q : request) (w : wparams) : request :=
+  mkQ w (q_weight_vid q) (q_scale_vid q) (q_ifm_scale q) (q_ofm_scale q) (q_biases q) (q_qscales q).
+Definition w0 := q_wp q0.
+(* the same request with one input of the weight stream changed *)
+Definition q_bits : request := set_wp q0 (mkWP 1 16 16 [0; 16] 1 1 1 16 0 false 7).
+Definition q_accel : request := set_wp q0 (mkWP 1 16 16 [0; 16] 1 1 1 8 1 false 7).
+Definition q_cores : request := set_wp q0 (mkWP 1 16 16 [0; 16] 1 1 2 8 0 false 7).
+Definition q_flip : request := set_wp q0 (mkWP 1 16 16 [0; 16] 1 1 1 8 0 true 7).
+Definition q_content : request := set_wp q0 (mkWP 1 16 16 [0; 16] 1 1 1 8 0 false 8).
+Definition q_blockdepth : request := set_wp q0 (mkWP 1 24 16 [0; 16] 1 1 1 8 0 false 7).
+(* and one input of the scale records that the scale key does not contain *)
+Definition q_qscales' : request :=
+  mkQ (q_wp q0) 100 200 1 2 (q_biases q0) (repeat (1073741825, 30) 16).
+
+Lemma key_omits_lemma :
+  Forall (fun q => wkey_of q = wkey_of q0 /\ skey_of q = skey_of q0 /\ q <> q0)
+         [q_bits; q_accel; q_cores; q_flip; q_content; q_blockdepth; q_qscales'].
+Proof.
+  repeat constructor; try reflexivity; intro H; inversion H.
+Qed.
+
+(* a codec whose output depends on the IFM bit depth (as the real one does): a request history with equal keys in
+   which the second response is not what a fresh encoding returns *)
+Definition bits_codec (w : wparams) (_ _ _ _ : Z) : list Z := repeat (wp_ifm_bits w) 16.
+
+Lemma cache_reuse_refuted_lemma :
+  exists (codec : wparams -> Z -> Z -> Z -> Z -> list Z) (h : list request) resps,
+    (forall w c d l b, zlen (codec w c d l b) mod 16 = 0) /\ Forall wf_request h /\
+    run codec [] h = Some resps /\
+    ~ Forall2 (fun q r => forall tf, fresh codec q = Some tf -> effective r = effective tf) h resps.
+Proof.
+  exists bits_codec, [q0; q_bits].
+  destruct (run bits_codec [] [q0; q_bits]) as [resps|] eqn:E; [|vm_compute in E; discriminate].
+  exists resps. split; [intros; reflexivity|]. split; [repeat constructor; vm_compute; lia|]. split; [reflexivity|].
+  intro F. vm_compute in E. inversion E. subst resps. clear E.
+  inversion F as [|? ? ? ? _ F1]; subst. inversion F1 as [|? ? ? ? H2 _]; subst.
+  destruct (fresh bits_codec q_bits) as [tf|] eqn:Ef; [|vm_compute in Ef; discriminate].
+  specialize (H2 tf eq_refl). vm_compute in Ef. inversion Ef. subst tf. vm_compute in H2. discriminate.
+Qed.
+
+(* ================================================================== satisfiable instances *)
+Example encode_bias_example :
+  encode_bias (-2) 1073741824 31 = Some [254; 255; 255; 255; 255; 0; 0; 0; 64; 31] /\
+  decode_bias [254; 255; 255; 255; 255; 0; 0; 0; 64; 31] = Some (-2, 1073741824, 31) /\
+  encode_bias 549755813888 1 1 = None.
+Proof. vm_compute. repeat split. Qed.
+
+Definition ex_biases : list Z := [10; -20; 30; -40; 50; -60; 70; -80].
+Definition ex_qs : list (Z * Z) := map (fun k => (1073741824 + k, 30 + k)) [0; 1; 2; 3; 4; 5; 6; 7].
+Definition ex_enc (c d l b : Z) : list Z := repeat (10 * d + c) (Z.to_nat (16 * (1 + c))).
+
+(* two cores, eight channels, slices [0,4) and [4,8): hypotheses of the layout theorems hold, the encoding exists *)
+Example layout_example :
+  exists t, encode_layout ex_enc 2 8 16 true ex_biases ex_qs [0; 4; 8] = Some t /\
+            wf_slices 2 8 [0; 4; 8] /\ zlen ex_biases = 8 /\ zlen ex_qs = 8 /\
+            map key_of_range (t_ranges t) = [(0, 0); (1, 0); (0, 4); (1, 4)] /\
+            map r_offset (t_ranges t) = [0; 48; 112; 160] /\ zlen (t_buffer t) = 224 /\ t_db t = (112, 112) /\
+            create_dma 2 (t_ranges t) 4 1000 = Some (1112, 112) /\
+            create_weights 2 (t_ranges t) 4 true 5000 None = Some ([(5032, 16); (5080, 32)], [(5000, 32); (5048, 32)]).
+Proof.
+  eexists. split; [vm_compute; reflexivity|]. cbn [t_ranges t_buffer t_db].
+  split.
+  { unfold wf_slices. split; [cbn; lia|]. split; [reflexivity|]. split; [reflexivity|].
+    intros p [<-|[<-|[]]]; cbn [fst snd]; left; reflexivity. }
+  vm_compute. repeat split.
+Qed.
+
+Definition q_other_scales : request :=
+  mkQ (q_wp q0) 100 201 1 2 [9; 9; 9; 9; 9; 9; 9; 9; 9; 9; 9; 9; 9; 9; 9; 9] (repeat (1073741825, 29) 16).
+
+(* a history with a miss, a full hit and a hit that re-encodes the scales only, satisfying key_determines_inputs *)
+Example cache_history_example :
+  key_determines_inputs [q0; q0; q_other_scales] /\ Forall wf_request [q0; q0; q_other_scales] /\
+  exists r ts, run bits_codec [] [q0; q0; q_other_scales] = Some [(r, None); (r, None); (r, Some ts)].
+Proof.
+  split.
+  { intros a b Ha Hb Hk. cbn [In] in Ha, Hb.
+    destruct Ha as [<-|[<-|[<-|[]]]]; destruct Hb as [<-|[<-|[<-|[]]]]; (split; [reflexivity|]); intro Hs;
+      try (split; reflexivity); vm_compute in Hs; discriminate. }
+  split; [repeat constructor; vm_compute; lia|].
+  eexists. eexists. vm_compute. reflexivity.
+Qed.
